@@ -163,6 +163,17 @@ module Nat =
   | S n0 -> (match n0 with
              | O -> O
              | S n' -> S (div2 n'))
+
+  (** val eq_dec : nat -> nat -> bool **)
+
+  let rec eq_dec n m =
+    match n with
+    | O -> (match m with
+            | O -> true
+            | S _ -> false)
+    | S n0 -> (match m with
+               | O -> false
+               | S n1 -> eq_dec n0 n1)
  end
 
 (** val tl : 'a1 list -> 'a1 list **)
@@ -170,6 +181,12 @@ module Nat =
 let tl = function
 | [] -> []
 | _ :: m -> m
+
+(** val in_dec : ('a1 -> 'a1 -> bool) -> 'a1 -> 'a1 list -> bool **)
+
+let rec in_dec h a = function
+| [] -> false
+| y :: l0 -> let s = h y a in if s then true else in_dec h a l0
 
 (** val nth : nat -> 'a1 list -> 'a1 -> 'a1 **)
 
@@ -229,6 +246,12 @@ let rec forallb f = function
 | [] -> true
 | a :: l0 -> (&&) (f a) (forallb f l0)
 
+(** val filter : ('a1 -> bool) -> 'a1 list -> 'a1 list **)
+
+let rec filter f = function
+| [] -> []
+| x :: l0 -> if f x then x :: (filter f l0) else filter f l0
+
 (** val combine : 'a1 list -> 'a2 list -> ('a1 * 'a2) list **)
 
 let rec combine l l' =
@@ -238,6 +261,12 @@ let rec combine l l' =
     (match l' with
      | [] -> []
      | y :: tl' -> (x, y) :: (combine tl0 tl'))
+
+(** val nodup : ('a1 -> 'a1 -> bool) -> 'a1 list -> 'a1 list **)
+
+let rec nodup decA = function
+| [] -> []
+| x :: xs -> if in_dec decA x xs then nodup decA xs else x :: (nodup decA xs)
 
 (** val seq : nat -> nat -> nat list **)
 
@@ -596,6 +625,12 @@ type ev =
 | Nx of val0
 | Er of err
 | Co
+
+(** val is_term : ev -> bool **)
+
+let is_term = function
+| Nx _ -> false
+| _ -> true
 
 (** val val_eqb : val0 -> val0 -> bool **)
 
@@ -1869,7 +1904,7 @@ let handler op src others st port ser fresh e =
         | VMatN x -> (st, ((SinkNext x) :: []))
         | VMatE x -> (st, ((SinkError x) :: []))
         | VMatC -> (st, ((UpAbort ser) :: ((SinkComplete ser) :: [])))
-        | _ -> (st, []))
+        | _ -> fwd st ser e)
      | _ -> fwd st ser e)
   | OTap _ ->
     (match e with
@@ -2080,7 +2115,8 @@ let plan op src others =
    | OFirst -> (((O, (POp ((OTake (S O)), src, []))) :: []), (O :: []))
    | OLast -> (((O, (POp ((OTakeLast (S O)), src, []))) :: []), (O :: []))
    | OElementAt n ->
-     (((O, (POp (OLast, (POp ((OTake n), src, [])), []))) :: []), (O :: []))
+     (((O, (POp ((OSkip (sub n (S O))), (POp ((OTake n), src, [])),
+       []))) :: []), (O :: []))
    | OAll p ->
      (((O, (POp ((OTake (S O)), (POp ((OFilter (neg_pred p)), src, [])),
        []))) :: []), (O :: []))
@@ -2101,11 +2137,18 @@ let plan op src others =
    | OSample ->
      (((O, (nth O others PNever)) :: (((S O), src) :: [])), (O :: ((S
        O) :: [])))
-   | OSwitchOnNext ->
-     (((O, src) :: (((S O), (nth O others PNever)) :: [])), (O :: ((S
-       O) :: [])))
+   | OSwitchOnNext -> ([], [])
    | OSequenceEqual -> (((O, (POp (OZip, src, others))) :: []), (O :: []))
    | _ -> (((O, src) :: []), (O :: [])))
+
+(** val init_acts : opk -> pipe -> pipe list -> act list **)
+
+let init_acts op src others =
+  match op with
+  | OSwitchOnNext ->
+    (ASubscribe (src, O)) :: ((ASubscribe ((nth O others PNever), (S
+      O))) :: [])
+  | _ -> []
 
 (** val hist_replay : subj -> oid -> req list **)
 
@@ -2418,13 +2461,15 @@ let step r w =
                set_node wt n { n_op = op; n_src = src; n_others = others;
                  n_st = st1; n_ctl = c }
              in
-             ((flat_map (fun i ->
-                match nth_error ups i with
-                | Some pp ->
-                  (match find_ser i entries with
-                   | Some o' -> (SubscribePipe ((snd pp), o')) :: []
-                   | None -> [])
-                | None -> []) order), w6)
+             ((app
+                (flat_map (fun i ->
+                  match nth_error ups i with
+                  | Some pp ->
+                    (match find_ser i entries with
+                     | Some o' -> (SubscribePipe ((snd pp), o')) :: []
+                     | None -> [])
+                  | None -> []) order)
+                (map (fun x -> Act (n, x)) (init_acts op src others))), w6)
            | OTap t ->
              let (ot, wt) = alloc_obs w4 (TTapLog t) in
              let st1 = st_set_aux st ot in
@@ -2432,25 +2477,29 @@ let step r w =
                set_node wt n { n_op = op; n_src = src; n_others = others;
                  n_st = st1; n_ctl = c }
              in
-             ((flat_map (fun i ->
-                match nth_error ups i with
-                | Some pp ->
-                  (match find_ser i entries with
-                   | Some o' -> (SubscribePipe ((snd pp), o')) :: []
-                   | None -> [])
-                | None -> []) order), w6)
+             ((app
+                (flat_map (fun i ->
+                  match nth_error ups i with
+                  | Some pp ->
+                    (match find_ser i entries with
+                     | Some o' -> (SubscribePipe ((snd pp), o')) :: []
+                     | None -> [])
+                  | None -> []) order)
+                (map (fun x -> Act (n, x)) (init_acts op src others))), w6)
            | _ ->
              let w6 =
                set_node w4 n { n_op = op; n_src = src; n_others = others;
                  n_st = st; n_ctl = c }
              in
-             ((flat_map (fun i ->
-                match nth_error ups i with
-                | Some pp ->
-                  (match find_ser i entries with
-                   | Some o' -> (SubscribePipe ((snd pp), o')) :: []
-                   | None -> [])
-                | None -> []) order), w6))
+             ((app
+                (flat_map (fun i ->
+                  match nth_error ups i with
+                  | Some pp ->
+                    (match find_ser i entries with
+                     | Some o' -> (SubscribePipe ((snd pp), o')) :: []
+                     | None -> [])
+                  | None -> []) order)
+                (map (fun x -> Act (n, x)) (init_acts op src others))), w6))
         | OFilter _ ->
           let c = w.n_ctls in
           let n = w.n_nodes in
@@ -2477,13 +2526,15 @@ let step r w =
                set_node wt n { n_op = op; n_src = src; n_others = others;
                  n_st = st1; n_ctl = c }
              in
-             ((flat_map (fun i ->
-                match nth_error ups i with
-                | Some pp ->
-                  (match find_ser i entries with
-                   | Some o' -> (SubscribePipe ((snd pp), o')) :: []
-                   | None -> [])
-                | None -> []) order), w6)
+             ((app
+                (flat_map (fun i ->
+                  match nth_error ups i with
+                  | Some pp ->
+                    (match find_ser i entries with
+                     | Some o' -> (SubscribePipe ((snd pp), o')) :: []
+                     | None -> [])
+                  | None -> []) order)
+                (map (fun x -> Act (n, x)) (init_acts op src others))), w6)
            | OTap t ->
              let (ot, wt) = alloc_obs w4 (TTapLog t) in
              let st1 = st_set_aux st ot in
@@ -2491,25 +2542,29 @@ let step r w =
                set_node wt n { n_op = op; n_src = src; n_others = others;
                  n_st = st1; n_ctl = c }
              in
-             ((flat_map (fun i ->
-                match nth_error ups i with
-                | Some pp ->
-                  (match find_ser i entries with
-                   | Some o' -> (SubscribePipe ((snd pp), o')) :: []
-                   | None -> [])
-                | None -> []) order), w6)
+             ((app
+                (flat_map (fun i ->
+                  match nth_error ups i with
+                  | Some pp ->
+                    (match find_ser i entries with
+                     | Some o' -> (SubscribePipe ((snd pp), o')) :: []
+                     | None -> [])
+                  | None -> []) order)
+                (map (fun x -> Act (n, x)) (init_acts op src others))), w6)
            | _ ->
              let w6 =
                set_node w4 n { n_op = op; n_src = src; n_others = others;
                  n_st = st; n_ctl = c }
              in
-             ((flat_map (fun i ->
-                match nth_error ups i with
-                | Some pp ->
-                  (match find_ser i entries with
-                   | Some o' -> (SubscribePipe ((snd pp), o')) :: []
-                   | None -> [])
-                | None -> []) order), w6))
+             ((app
+                (flat_map (fun i ->
+                  match nth_error ups i with
+                  | Some pp ->
+                    (match find_ser i entries with
+                     | Some o' -> (SubscribePipe ((snd pp), o')) :: []
+                     | None -> [])
+                  | None -> []) order)
+                (map (fun x -> Act (n, x)) (init_acts op src others))), w6))
         | OTake _ ->
           let c = w.n_ctls in
           let n = w.n_nodes in
@@ -2536,13 +2591,15 @@ let step r w =
                set_node wt n { n_op = op; n_src = src; n_others = others;
                  n_st = st1; n_ctl = c }
              in
-             ((flat_map (fun i ->
-                match nth_error ups i with
-                | Some pp ->
-                  (match find_ser i entries with
-                   | Some o' -> (SubscribePipe ((snd pp), o')) :: []
-                   | None -> [])
-                | None -> []) order), w6)
+             ((app
+                (flat_map (fun i ->
+                  match nth_error ups i with
+                  | Some pp ->
+                    (match find_ser i entries with
+                     | Some o' -> (SubscribePipe ((snd pp), o')) :: []
+                     | None -> [])
+                  | None -> []) order)
+                (map (fun x -> Act (n, x)) (init_acts op src others))), w6)
            | OTap t ->
              let (ot, wt) = alloc_obs w4 (TTapLog t) in
              let st1 = st_set_aux st ot in
@@ -2550,25 +2607,29 @@ let step r w =
                set_node wt n { n_op = op; n_src = src; n_others = others;
                  n_st = st1; n_ctl = c }
              in
-             ((flat_map (fun i ->
-                match nth_error ups i with
-                | Some pp ->
-                  (match find_ser i entries with
-                   | Some o' -> (SubscribePipe ((snd pp), o')) :: []
-                   | None -> [])
-                | None -> []) order), w6)
+             ((app
+                (flat_map (fun i ->
+                  match nth_error ups i with
+                  | Some pp ->
+                    (match find_ser i entries with
+                     | Some o' -> (SubscribePipe ((snd pp), o')) :: []
+                     | None -> [])
+                  | None -> []) order)
+                (map (fun x -> Act (n, x)) (init_acts op src others))), w6)
            | _ ->
              let w6 =
                set_node w4 n { n_op = op; n_src = src; n_others = others;
                  n_st = st; n_ctl = c }
              in
-             ((flat_map (fun i ->
-                match nth_error ups i with
-                | Some pp ->
-                  (match find_ser i entries with
-                   | Some o' -> (SubscribePipe ((snd pp), o')) :: []
-                   | None -> [])
-                | None -> []) order), w6))
+             ((app
+                (flat_map (fun i ->
+                  match nth_error ups i with
+                  | Some pp ->
+                    (match find_ser i entries with
+                     | Some o' -> (SubscribePipe ((snd pp), o')) :: []
+                     | None -> [])
+                  | None -> []) order)
+                (map (fun x -> Act (n, x)) (init_acts op src others))), w6))
         | OTakeWhile _ ->
           let c = w.n_ctls in
           let n = w.n_nodes in
@@ -2595,13 +2656,15 @@ let step r w =
                set_node wt n { n_op = op; n_src = src; n_others = others;
                  n_st = st1; n_ctl = c }
              in
-             ((flat_map (fun i ->
-                match nth_error ups i with
-                | Some pp ->
-                  (match find_ser i entries with
-                   | Some o' -> (SubscribePipe ((snd pp), o')) :: []
-                   | None -> [])
-                | None -> []) order), w6)
+             ((app
+                (flat_map (fun i ->
+                  match nth_error ups i with
+                  | Some pp ->
+                    (match find_ser i entries with
+                     | Some o' -> (SubscribePipe ((snd pp), o')) :: []
+                     | None -> [])
+                  | None -> []) order)
+                (map (fun x -> Act (n, x)) (init_acts op src others))), w6)
            | OTap t ->
              let (ot, wt) = alloc_obs w4 (TTapLog t) in
              let st1 = st_set_aux st ot in
@@ -2609,25 +2672,29 @@ let step r w =
                set_node wt n { n_op = op; n_src = src; n_others = others;
                  n_st = st1; n_ctl = c }
              in
-             ((flat_map (fun i ->
-                match nth_error ups i with
-                | Some pp ->
-                  (match find_ser i entries with
-                   | Some o' -> (SubscribePipe ((snd pp), o')) :: []
-                   | None -> [])
-                | None -> []) order), w6)
+             ((app
+                (flat_map (fun i ->
+                  match nth_error ups i with
+                  | Some pp ->
+                    (match find_ser i entries with
+                     | Some o' -> (SubscribePipe ((snd pp), o')) :: []
+                     | None -> [])
+                  | None -> []) order)
+                (map (fun x -> Act (n, x)) (init_acts op src others))), w6)
            | _ ->
              let w6 =
                set_node w4 n { n_op = op; n_src = src; n_others = others;
                  n_st = st; n_ctl = c }
              in
-             ((flat_map (fun i ->
-                match nth_error ups i with
-                | Some pp ->
-                  (match find_ser i entries with
-                   | Some o' -> (SubscribePipe ((snd pp), o')) :: []
-                   | None -> [])
-                | None -> []) order), w6))
+             ((app
+                (flat_map (fun i ->
+                  match nth_error ups i with
+                  | Some pp ->
+                    (match find_ser i entries with
+                     | Some o' -> (SubscribePipe ((snd pp), o')) :: []
+                     | None -> [])
+                  | None -> []) order)
+                (map (fun x -> Act (n, x)) (init_acts op src others))), w6))
         | OTakeLast _ ->
           let c = w.n_ctls in
           let n = w.n_nodes in
@@ -2654,13 +2721,15 @@ let step r w =
                set_node wt n { n_op = op; n_src = src; n_others = others;
                  n_st = st1; n_ctl = c }
              in
-             ((flat_map (fun i ->
-                match nth_error ups i with
-                | Some pp ->
-                  (match find_ser i entries with
-                   | Some o' -> (SubscribePipe ((snd pp), o')) :: []
-                   | None -> [])
-                | None -> []) order), w6)
+             ((app
+                (flat_map (fun i ->
+                  match nth_error ups i with
+                  | Some pp ->
+                    (match find_ser i entries with
+                     | Some o' -> (SubscribePipe ((snd pp), o')) :: []
+                     | None -> [])
+                  | None -> []) order)
+                (map (fun x -> Act (n, x)) (init_acts op src others))), w6)
            | OTap t ->
              let (ot, wt) = alloc_obs w4 (TTapLog t) in
              let st1 = st_set_aux st ot in
@@ -2668,25 +2737,29 @@ let step r w =
                set_node wt n { n_op = op; n_src = src; n_others = others;
                  n_st = st1; n_ctl = c }
              in
-             ((flat_map (fun i ->
-                match nth_error ups i with
-                | Some pp ->
-                  (match find_ser i entries with
-                   | Some o' -> (SubscribePipe ((snd pp), o')) :: []
-                   | None -> [])
-                | None -> []) order), w6)
+             ((app
+                (flat_map (fun i ->
+                  match nth_error ups i with
+                  | Some pp ->
+                    (match find_ser i entries with
+                     | Some o' -> (SubscribePipe ((snd pp), o')) :: []
+                     | None -> [])
+                  | None -> []) order)
+                (map (fun x -> Act (n, x)) (init_acts op src others))), w6)
            | _ ->
              let w6 =
                set_node w4 n { n_op = op; n_src = src; n_others = others;
                  n_st = st; n_ctl = c }
              in
-             ((flat_map (fun i ->
-                match nth_error ups i with
-                | Some pp ->
-                  (match find_ser i entries with
-                   | Some o' -> (SubscribePipe ((snd pp), o')) :: []
-                   | None -> [])
-                | None -> []) order), w6))
+             ((app
+                (flat_map (fun i ->
+                  match nth_error ups i with
+                  | Some pp ->
+                    (match find_ser i entries with
+                     | Some o' -> (SubscribePipe ((snd pp), o')) :: []
+                     | None -> [])
+                  | None -> []) order)
+                (map (fun x -> Act (n, x)) (init_acts op src others))), w6))
         | OSkip _ ->
           let c = w.n_ctls in
           let n = w.n_nodes in
@@ -2713,13 +2786,15 @@ let step r w =
                set_node wt n { n_op = op; n_src = src; n_others = others;
                  n_st = st1; n_ctl = c }
              in
-             ((flat_map (fun i ->
-                match nth_error ups i with
-                | Some pp ->
-                  (match find_ser i entries with
-                   | Some o' -> (SubscribePipe ((snd pp), o')) :: []
-                   | None -> [])
-                | None -> []) order), w6)
+             ((app
+                (flat_map (fun i ->
+                  match nth_error ups i with
+                  | Some pp ->
+                    (match find_ser i entries with
+                     | Some o' -> (SubscribePipe ((snd pp), o')) :: []
+                     | None -> [])
+                  | None -> []) order)
+                (map (fun x -> Act (n, x)) (init_acts op src others))), w6)
            | OTap t ->
              let (ot, wt) = alloc_obs w4 (TTapLog t) in
              let st1 = st_set_aux st ot in
@@ -2727,25 +2802,29 @@ let step r w =
                set_node wt n { n_op = op; n_src = src; n_others = others;
                  n_st = st1; n_ctl = c }
              in
-             ((flat_map (fun i ->
-                match nth_error ups i with
-                | Some pp ->
-                  (match find_ser i entries with
-                   | Some o' -> (SubscribePipe ((snd pp), o')) :: []
-                   | None -> [])
-                | None -> []) order), w6)
+             ((app
+                (flat_map (fun i ->
+                  match nth_error ups i with
+                  | Some pp ->
+                    (match find_ser i entries with
+                     | Some o' -> (SubscribePipe ((snd pp), o')) :: []
+                     | None -> [])
+                  | None -> []) order)
+                (map (fun x -> Act (n, x)) (init_acts op src others))), w6)
            | _ ->
              let w6 =
                set_node w4 n { n_op = op; n_src = src; n_others = others;
                  n_st = st; n_ctl = c }
              in
-             ((flat_map (fun i ->
-                match nth_error ups i with
-                | Some pp ->
-                  (match find_ser i entries with
-                   | Some o' -> (SubscribePipe ((snd pp), o')) :: []
-                   | None -> [])
-                | None -> []) order), w6))
+             ((app
+                (flat_map (fun i ->
+                  match nth_error ups i with
+                  | Some pp ->
+                    (match find_ser i entries with
+                     | Some o' -> (SubscribePipe ((snd pp), o')) :: []
+                     | None -> [])
+                  | None -> []) order)
+                (map (fun x -> Act (n, x)) (init_acts op src others))), w6))
         | OSkipLast _ ->
           let c = w.n_ctls in
           let n = w.n_nodes in
@@ -2772,13 +2851,15 @@ let step r w =
                set_node wt n { n_op = op; n_src = src; n_others = others;
                  n_st = st1; n_ctl = c }
              in
-             ((flat_map (fun i ->
-                match nth_error ups i with
-                | Some pp ->
-                  (match find_ser i entries with
-                   | Some o' -> (SubscribePipe ((snd pp), o')) :: []
-                   | None -> [])
-                | None -> []) order), w6)
+             ((app
+                (flat_map (fun i ->
+                  match nth_error ups i with
+                  | Some pp ->
+                    (match find_ser i entries with
+                     | Some o' -> (SubscribePipe ((snd pp), o')) :: []
+                     | None -> [])
+                  | None -> []) order)
+                (map (fun x -> Act (n, x)) (init_acts op src others))), w6)
            | OTap t ->
              let (ot, wt) = alloc_obs w4 (TTapLog t) in
              let st1 = st_set_aux st ot in
@@ -2786,25 +2867,29 @@ let step r w =
                set_node wt n { n_op = op; n_src = src; n_others = others;
                  n_st = st1; n_ctl = c }
              in
-             ((flat_map (fun i ->
-                match nth_error ups i with
-                | Some pp ->
-                  (match find_ser i entries with
-                   | Some o' -> (SubscribePipe ((snd pp), o')) :: []
-                   | None -> [])
-                | None -> []) order), w6)
+             ((app
+                (flat_map (fun i ->
+                  match nth_error ups i with
+                  | Some pp ->
+                    (match find_ser i entries with
+                     | Some o' -> (SubscribePipe ((snd pp), o')) :: []
+                     | None -> [])
+                  | None -> []) order)
+                (map (fun x -> Act (n, x)) (init_acts op src others))), w6)
            | _ ->
              let w6 =
                set_node w4 n { n_op = op; n_src = src; n_others = others;
                  n_st = st; n_ctl = c }
              in
-             ((flat_map (fun i ->
-                match nth_error ups i with
-                | Some pp ->
-                  (match find_ser i entries with
-                   | Some o' -> (SubscribePipe ((snd pp), o')) :: []
-                   | None -> [])
-                | None -> []) order), w6))
+             ((app
+                (flat_map (fun i ->
+                  match nth_error ups i with
+                  | Some pp ->
+                    (match find_ser i entries with
+                     | Some o' -> (SubscribePipe ((snd pp), o')) :: []
+                     | None -> [])
+                  | None -> []) order)
+                (map (fun x -> Act (n, x)) (init_acts op src others))), w6))
         | OSkipWhile _ ->
           let c = w.n_ctls in
           let n = w.n_nodes in
@@ -2831,13 +2916,15 @@ let step r w =
                set_node wt n { n_op = op; n_src = src; n_others = others;
                  n_st = st1; n_ctl = c }
              in
-             ((flat_map (fun i ->
-                match nth_error ups i with
-                | Some pp ->
-                  (match find_ser i entries with
-                   | Some o' -> (SubscribePipe ((snd pp), o')) :: []
-                   | None -> [])
-                | None -> []) order), w6)
+             ((app
+                (flat_map (fun i ->
+                  match nth_error ups i with
+                  | Some pp ->
+                    (match find_ser i entries with
+                     | Some o' -> (SubscribePipe ((snd pp), o')) :: []
+                     | None -> [])
+                  | None -> []) order)
+                (map (fun x -> Act (n, x)) (init_acts op src others))), w6)
            | OTap t ->
              let (ot, wt) = alloc_obs w4 (TTapLog t) in
              let st1 = st_set_aux st ot in
@@ -2845,25 +2932,29 @@ let step r w =
                set_node wt n { n_op = op; n_src = src; n_others = others;
                  n_st = st1; n_ctl = c }
              in
-             ((flat_map (fun i ->
-                match nth_error ups i with
-                | Some pp ->
-                  (match find_ser i entries with
-                   | Some o' -> (SubscribePipe ((snd pp), o')) :: []
-                   | None -> [])
-                | None -> []) order), w6)
+             ((app
+                (flat_map (fun i ->
+                  match nth_error ups i with
+                  | Some pp ->
+                    (match find_ser i entries with
+                     | Some o' -> (SubscribePipe ((snd pp), o')) :: []
+                     | None -> [])
+                  | None -> []) order)
+                (map (fun x -> Act (n, x)) (init_acts op src others))), w6)
            | _ ->
              let w6 =
                set_node w4 n { n_op = op; n_src = src; n_others = others;
                  n_st = st; n_ctl = c }
              in
-             ((flat_map (fun i ->
-                match nth_error ups i with
-                | Some pp ->
-                  (match find_ser i entries with
-                   | Some o' -> (SubscribePipe ((snd pp), o')) :: []
-                   | None -> [])
-                | None -> []) order), w6))
+             ((app
+                (flat_map (fun i ->
+                  match nth_error ups i with
+                  | Some pp ->
+                    (match find_ser i entries with
+                     | Some o' -> (SubscribePipe ((snd pp), o')) :: []
+                     | None -> [])
+                  | None -> []) order)
+                (map (fun x -> Act (n, x)) (init_acts op src others))), w6))
         | OFirst ->
           let c = w.n_ctls in
           let n = w.n_nodes in
@@ -2890,13 +2981,15 @@ let step r w =
                set_node wt n { n_op = op; n_src = src; n_others = others;
                  n_st = st1; n_ctl = c }
              in
-             ((flat_map (fun i ->
-                match nth_error ups i with
-                | Some pp ->
-                  (match find_ser i entries with
-                   | Some o' -> (SubscribePipe ((snd pp), o')) :: []
-                   | None -> [])
-                | None -> []) order), w6)
+             ((app
+                (flat_map (fun i ->
+                  match nth_error ups i with
+                  | Some pp ->
+                    (match find_ser i entries with
+                     | Some o' -> (SubscribePipe ((snd pp), o')) :: []
+                     | None -> [])
+                  | None -> []) order)
+                (map (fun x -> Act (n, x)) (init_acts op src others))), w6)
            | OTap t ->
              let (ot, wt) = alloc_obs w4 (TTapLog t) in
              let st1 = st_set_aux st ot in
@@ -2904,25 +2997,29 @@ let step r w =
                set_node wt n { n_op = op; n_src = src; n_others = others;
                  n_st = st1; n_ctl = c }
              in
-             ((flat_map (fun i ->
-                match nth_error ups i with
-                | Some pp ->
-                  (match find_ser i entries with
-                   | Some o' -> (SubscribePipe ((snd pp), o')) :: []
-                   | None -> [])
-                | None -> []) order), w6)
+             ((app
+                (flat_map (fun i ->
+                  match nth_error ups i with
+                  | Some pp ->
+                    (match find_ser i entries with
+                     | Some o' -> (SubscribePipe ((snd pp), o')) :: []
+                     | None -> [])
+                  | None -> []) order)
+                (map (fun x -> Act (n, x)) (init_acts op src others))), w6)
            | _ ->
              let w6 =
                set_node w4 n { n_op = op; n_src = src; n_others = others;
                  n_st = st; n_ctl = c }
              in
-             ((flat_map (fun i ->
-                match nth_error ups i with
-                | Some pp ->
-                  (match find_ser i entries with
-                   | Some o' -> (SubscribePipe ((snd pp), o')) :: []
-                   | None -> [])
-                | None -> []) order), w6))
+             ((app
+                (flat_map (fun i ->
+                  match nth_error ups i with
+                  | Some pp ->
+                    (match find_ser i entries with
+                     | Some o' -> (SubscribePipe ((snd pp), o')) :: []
+                     | None -> [])
+                  | None -> []) order)
+                (map (fun x -> Act (n, x)) (init_acts op src others))), w6))
         | OLast ->
           let c = w.n_ctls in
           let n = w.n_nodes in
@@ -2949,13 +3046,15 @@ let step r w =
                set_node wt n { n_op = op; n_src = src; n_others = others;
                  n_st = st1; n_ctl = c }
              in
-             ((flat_map (fun i ->
-                match nth_error ups i with
-                | Some pp ->
-                  (match find_ser i entries with
-                   | Some o' -> (SubscribePipe ((snd pp), o')) :: []
-                   | None -> [])
-                | None -> []) order), w6)
+             ((app
+                (flat_map (fun i ->
+                  match nth_error ups i with
+                  | Some pp ->
+                    (match find_ser i entries with
+                     | Some o' -> (SubscribePipe ((snd pp), o')) :: []
+                     | None -> [])
+                  | None -> []) order)
+                (map (fun x -> Act (n, x)) (init_acts op src others))), w6)
            | OTap t ->
              let (ot, wt) = alloc_obs w4 (TTapLog t) in
              let st1 = st_set_aux st ot in
@@ -2963,25 +3062,29 @@ let step r w =
                set_node wt n { n_op = op; n_src = src; n_others = others;
                  n_st = st1; n_ctl = c }
              in
-             ((flat_map (fun i ->
-                match nth_error ups i with
-                | Some pp ->
-                  (match find_ser i entries with
-                   | Some o' -> (SubscribePipe ((snd pp), o')) :: []
-                   | None -> [])
-                | None -> []) order), w6)
+             ((app
+                (flat_map (fun i ->
+                  match nth_error ups i with
+                  | Some pp ->
+                    (match find_ser i entries with
+                     | Some o' -> (SubscribePipe ((snd pp), o')) :: []
+                     | None -> [])
+                  | None -> []) order)
+                (map (fun x -> Act (n, x)) (init_acts op src others))), w6)
            | _ ->
              let w6 =
                set_node w4 n { n_op = op; n_src = src; n_others = others;
                  n_st = st; n_ctl = c }
              in
-             ((flat_map (fun i ->
-                match nth_error ups i with
-                | Some pp ->
-                  (match find_ser i entries with
-                   | Some o' -> (SubscribePipe ((snd pp), o')) :: []
-                   | None -> [])
-                | None -> []) order), w6))
+             ((app
+                (flat_map (fun i ->
+                  match nth_error ups i with
+                  | Some pp ->
+                    (match find_ser i entries with
+                     | Some o' -> (SubscribePipe ((snd pp), o')) :: []
+                     | None -> [])
+                  | None -> []) order)
+                (map (fun x -> Act (n, x)) (init_acts op src others))), w6))
         | OElementAt _ ->
           let c = w.n_ctls in
           let n = w.n_nodes in
@@ -3008,13 +3111,15 @@ let step r w =
                set_node wt n { n_op = op; n_src = src; n_others = others;
                  n_st = st1; n_ctl = c }
              in
-             ((flat_map (fun i ->
-                match nth_error ups i with
-                | Some pp ->
-                  (match find_ser i entries with
-                   | Some o' -> (SubscribePipe ((snd pp), o')) :: []
-                   | None -> [])
-                | None -> []) order), w6)
+             ((app
+                (flat_map (fun i ->
+                  match nth_error ups i with
+                  | Some pp ->
+                    (match find_ser i entries with
+                     | Some o' -> (SubscribePipe ((snd pp), o')) :: []
+                     | None -> [])
+                  | None -> []) order)
+                (map (fun x -> Act (n, x)) (init_acts op src others))), w6)
            | OTap t ->
              let (ot, wt) = alloc_obs w4 (TTapLog t) in
              let st1 = st_set_aux st ot in
@@ -3022,25 +3127,29 @@ let step r w =
                set_node wt n { n_op = op; n_src = src; n_others = others;
                  n_st = st1; n_ctl = c }
              in
-             ((flat_map (fun i ->
-                match nth_error ups i with
-                | Some pp ->
-                  (match find_ser i entries with
-                   | Some o' -> (SubscribePipe ((snd pp), o')) :: []
-                   | None -> [])
-                | None -> []) order), w6)
+             ((app
+                (flat_map (fun i ->
+                  match nth_error ups i with
+                  | Some pp ->
+                    (match find_ser i entries with
+                     | Some o' -> (SubscribePipe ((snd pp), o')) :: []
+                     | None -> [])
+                  | None -> []) order)
+                (map (fun x -> Act (n, x)) (init_acts op src others))), w6)
            | _ ->
              let w6 =
                set_node w4 n { n_op = op; n_src = src; n_others = others;
                  n_st = st; n_ctl = c }
              in
-             ((flat_map (fun i ->
-                match nth_error ups i with
-                | Some pp ->
-                  (match find_ser i entries with
-                   | Some o' -> (SubscribePipe ((snd pp), o')) :: []
-                   | None -> [])
-                | None -> []) order), w6))
+             ((app
+                (flat_map (fun i ->
+                  match nth_error ups i with
+                  | Some pp ->
+                    (match find_ser i entries with
+                     | Some o' -> (SubscribePipe ((snd pp), o')) :: []
+                     | None -> [])
+                  | None -> []) order)
+                (map (fun x -> Act (n, x)) (init_acts op src others))), w6))
         | ODistinct ->
           let c = w.n_ctls in
           let n = w.n_nodes in
@@ -3067,13 +3176,15 @@ let step r w =
                set_node wt n { n_op = op; n_src = src; n_others = others;
                  n_st = st1; n_ctl = c }
              in
-             ((flat_map (fun i ->
-                match nth_error ups i with
-                | Some pp ->
-                  (match find_ser i entries with
-                   | Some o' -> (SubscribePipe ((snd pp), o')) :: []
-                   | None -> [])
-                | None -> []) order), w6)
+             ((app
+                (flat_map (fun i ->
+                  match nth_error ups i with
+                  | Some pp ->
+                    (match find_ser i entries with
+                     | Some o' -> (SubscribePipe ((snd pp), o')) :: []
+                     | None -> [])
+                  | None -> []) order)
+                (map (fun x -> Act (n, x)) (init_acts op src others))), w6)
            | OTap t ->
              let (ot, wt) = alloc_obs w4 (TTapLog t) in
              let st1 = st_set_aux st ot in
@@ -3081,25 +3192,29 @@ let step r w =
                set_node wt n { n_op = op; n_src = src; n_others = others;
                  n_st = st1; n_ctl = c }
              in
-             ((flat_map (fun i ->
-                match nth_error ups i with
-                | Some pp ->
-                  (match find_ser i entries with
-                   | Some o' -> (SubscribePipe ((snd pp), o')) :: []
-                   | None -> [])
-                | None -> []) order), w6)
+             ((app
+                (flat_map (fun i ->
+                  match nth_error ups i with
+                  | Some pp ->
+                    (match find_ser i entries with
+                     | Some o' -> (SubscribePipe ((snd pp), o')) :: []
+                     | None -> [])
+                  | None -> []) order)
+                (map (fun x -> Act (n, x)) (init_acts op src others))), w6)
            | _ ->
              let w6 =
                set_node w4 n { n_op = op; n_src = src; n_others = others;
                  n_st = st; n_ctl = c }
              in
-             ((flat_map (fun i ->
-                match nth_error ups i with
-                | Some pp ->
-                  (match find_ser i entries with
-                   | Some o' -> (SubscribePipe ((snd pp), o')) :: []
-                   | None -> [])
-                | None -> []) order), w6))
+             ((app
+                (flat_map (fun i ->
+                  match nth_error ups i with
+                  | Some pp ->
+                    (match find_ser i entries with
+                     | Some o' -> (SubscribePipe ((snd pp), o')) :: []
+                     | None -> [])
+                  | None -> []) order)
+                (map (fun x -> Act (n, x)) (init_acts op src others))), w6))
         | OScan _ ->
           let c = w.n_ctls in
           let n = w.n_nodes in
@@ -3126,13 +3241,15 @@ let step r w =
                set_node wt n { n_op = op; n_src = src; n_others = others;
                  n_st = st1; n_ctl = c }
              in
-             ((flat_map (fun i ->
-                match nth_error ups i with
-                | Some pp ->
-                  (match find_ser i entries with
-                   | Some o' -> (SubscribePipe ((snd pp), o')) :: []
-                   | None -> [])
-                | None -> []) order), w6)
+             ((app
+                (flat_map (fun i ->
+                  match nth_error ups i with
+                  | Some pp ->
+                    (match find_ser i entries with
+                     | Some o' -> (SubscribePipe ((snd pp), o')) :: []
+                     | None -> [])
+                  | None -> []) order)
+                (map (fun x -> Act (n, x)) (init_acts op src others))), w6)
            | OTap t ->
              let (ot, wt) = alloc_obs w4 (TTapLog t) in
              let st1 = st_set_aux st ot in
@@ -3140,25 +3257,29 @@ let step r w =
                set_node wt n { n_op = op; n_src = src; n_others = others;
                  n_st = st1; n_ctl = c }
              in
-             ((flat_map (fun i ->
-                match nth_error ups i with
-                | Some pp ->
-                  (match find_ser i entries with
-                   | Some o' -> (SubscribePipe ((snd pp), o')) :: []
-                   | None -> [])
-                | None -> []) order), w6)
+             ((app
+                (flat_map (fun i ->
+                  match nth_error ups i with
+                  | Some pp ->
+                    (match find_ser i entries with
+                     | Some o' -> (SubscribePipe ((snd pp), o')) :: []
+                     | None -> [])
+                  | None -> []) order)
+                (map (fun x -> Act (n, x)) (init_acts op src others))), w6)
            | _ ->
              let w6 =
                set_node w4 n { n_op = op; n_src = src; n_others = others;
                  n_st = st; n_ctl = c }
              in
-             ((flat_map (fun i ->
-                match nth_error ups i with
-                | Some pp ->
-                  (match find_ser i entries with
-                   | Some o' -> (SubscribePipe ((snd pp), o')) :: []
-                   | None -> [])
-                | None -> []) order), w6))
+             ((app
+                (flat_map (fun i ->
+                  match nth_error ups i with
+                  | Some pp ->
+                    (match find_ser i entries with
+                     | Some o' -> (SubscribePipe ((snd pp), o')) :: []
+                     | None -> [])
+                  | None -> []) order)
+                (map (fun x -> Act (n, x)) (init_acts op src others))), w6))
         | OReduce _ ->
           let c = w.n_ctls in
           let n = w.n_nodes in
@@ -3185,13 +3306,15 @@ let step r w =
                set_node wt n { n_op = op; n_src = src; n_others = others;
                  n_st = st1; n_ctl = c }
              in
-             ((flat_map (fun i ->
-                match nth_error ups i with
-                | Some pp ->
-                  (match find_ser i entries with
-                   | Some o' -> (SubscribePipe ((snd pp), o')) :: []
-                   | None -> [])
-                | None -> []) order), w6)
+             ((app
+                (flat_map (fun i ->
+                  match nth_error ups i with
+                  | Some pp ->
+                    (match find_ser i entries with
+                     | Some o' -> (SubscribePipe ((snd pp), o')) :: []
+                     | None -> [])
+                  | None -> []) order)
+                (map (fun x -> Act (n, x)) (init_acts op src others))), w6)
            | OTap t ->
              let (ot, wt) = alloc_obs w4 (TTapLog t) in
              let st1 = st_set_aux st ot in
@@ -3199,25 +3322,29 @@ let step r w =
                set_node wt n { n_op = op; n_src = src; n_others = others;
                  n_st = st1; n_ctl = c }
              in
-             ((flat_map (fun i ->
-                match nth_error ups i with
-                | Some pp ->
-                  (match find_ser i entries with
-                   | Some o' -> (SubscribePipe ((snd pp), o')) :: []
-                   | None -> [])
-                | None -> []) order), w6)
+             ((app
+                (flat_map (fun i ->
+                  match nth_error ups i with
+                  | Some pp ->
+                    (match find_ser i entries with
+                     | Some o' -> (SubscribePipe ((snd pp), o')) :: []
+                     | None -> [])
+                  | None -> []) order)
+                (map (fun x -> Act (n, x)) (init_acts op src others))), w6)
            | _ ->
              let w6 =
                set_node w4 n { n_op = op; n_src = src; n_others = others;
                  n_st = st; n_ctl = c }
              in
-             ((flat_map (fun i ->
-                match nth_error ups i with
-                | Some pp ->
-                  (match find_ser i entries with
-                   | Some o' -> (SubscribePipe ((snd pp), o')) :: []
-                   | None -> [])
-                | None -> []) order), w6))
+             ((app
+                (flat_map (fun i ->
+                  match nth_error ups i with
+                  | Some pp ->
+                    (match find_ser i entries with
+                     | Some o' -> (SubscribePipe ((snd pp), o')) :: []
+                     | None -> [])
+                  | None -> []) order)
+                (map (fun x -> Act (n, x)) (init_acts op src others))), w6))
         | OCount ->
           let c = w.n_ctls in
           let n = w.n_nodes in
@@ -3244,13 +3371,15 @@ let step r w =
                set_node wt n { n_op = op; n_src = src; n_others = others;
                  n_st = st1; n_ctl = c }
              in
-             ((flat_map (fun i ->
-                match nth_error ups i with
-                | Some pp ->
-                  (match find_ser i entries with
-                   | Some o' -> (SubscribePipe ((snd pp), o')) :: []
-                   | None -> [])
-                | None -> []) order), w6)
+             ((app
+                (flat_map (fun i ->
+                  match nth_error ups i with
+                  | Some pp ->
+                    (match find_ser i entries with
+                     | Some o' -> (SubscribePipe ((snd pp), o')) :: []
+                     | None -> [])
+                  | None -> []) order)
+                (map (fun x -> Act (n, x)) (init_acts op src others))), w6)
            | OTap t ->
              let (ot, wt) = alloc_obs w4 (TTapLog t) in
              let st1 = st_set_aux st ot in
@@ -3258,25 +3387,29 @@ let step r w =
                set_node wt n { n_op = op; n_src = src; n_others = others;
                  n_st = st1; n_ctl = c }
              in
-             ((flat_map (fun i ->
-                match nth_error ups i with
-                | Some pp ->
-                  (match find_ser i entries with
-                   | Some o' -> (SubscribePipe ((snd pp), o')) :: []
-                   | None -> [])
-                | None -> []) order), w6)
+             ((app
+                (flat_map (fun i ->
+                  match nth_error ups i with
+                  | Some pp ->
+                    (match find_ser i entries with
+                     | Some o' -> (SubscribePipe ((snd pp), o')) :: []
+                     | None -> [])
+                  | None -> []) order)
+                (map (fun x -> Act (n, x)) (init_acts op src others))), w6)
            | _ ->
              let w6 =
                set_node w4 n { n_op = op; n_src = src; n_others = others;
                  n_st = st; n_ctl = c }
              in
-             ((flat_map (fun i ->
-                match nth_error ups i with
-                | Some pp ->
-                  (match find_ser i entries with
-                   | Some o' -> (SubscribePipe ((snd pp), o')) :: []
-                   | None -> [])
-                | None -> []) order), w6))
+             ((app
+                (flat_map (fun i ->
+                  match nth_error ups i with
+                  | Some pp ->
+                    (match find_ser i entries with
+                     | Some o' -> (SubscribePipe ((snd pp), o')) :: []
+                     | None -> [])
+                  | None -> []) order)
+                (map (fun x -> Act (n, x)) (init_acts op src others))), w6))
         | OSum ->
           let c = w.n_ctls in
           let n = w.n_nodes in
@@ -3303,13 +3436,15 @@ let step r w =
                set_node wt n { n_op = op; n_src = src; n_others = others;
                  n_st = st1; n_ctl = c }
              in
-             ((flat_map (fun i ->
-                match nth_error ups i with
-                | Some pp ->
-                  (match find_ser i entries with
-                   | Some o' -> (SubscribePipe ((snd pp), o')) :: []
-                   | None -> [])
-                | None -> []) order), w6)
+             ((app
+                (flat_map (fun i ->
+                  match nth_error ups i with
+                  | Some pp ->
+                    (match find_ser i entries with
+                     | Some o' -> (SubscribePipe ((snd pp), o')) :: []
+                     | None -> [])
+                  | None -> []) order)
+                (map (fun x -> Act (n, x)) (init_acts op src others))), w6)
            | OTap t ->
              let (ot, wt) = alloc_obs w4 (TTapLog t) in
              let st1 = st_set_aux st ot in
@@ -3317,25 +3452,29 @@ let step r w =
                set_node wt n { n_op = op; n_src = src; n_others = others;
                  n_st = st1; n_ctl = c }
              in
-             ((flat_map (fun i ->
-                match nth_error ups i with
-                | Some pp ->
-                  (match find_ser i entries with
-                   | Some o' -> (SubscribePipe ((snd pp), o')) :: []
-                   | None -> [])
-                | None -> []) order), w6)
+             ((app
+                (flat_map (fun i ->
+                  match nth_error ups i with
+                  | Some pp ->
+                    (match find_ser i entries with
+                     | Some o' -> (SubscribePipe ((snd pp), o')) :: []
+                     | None -> [])
+                  | None -> []) order)
+                (map (fun x -> Act (n, x)) (init_acts op src others))), w6)
            | _ ->
              let w6 =
                set_node w4 n { n_op = op; n_src = src; n_others = others;
                  n_st = st; n_ctl = c }
              in
-             ((flat_map (fun i ->
-                match nth_error ups i with
-                | Some pp ->
-                  (match find_ser i entries with
-                   | Some o' -> (SubscribePipe ((snd pp), o')) :: []
-                   | None -> [])
-                | None -> []) order), w6))
+             ((app
+                (flat_map (fun i ->
+                  match nth_error ups i with
+                  | Some pp ->
+                    (match find_ser i entries with
+                     | Some o' -> (SubscribePipe ((snd pp), o')) :: []
+                     | None -> [])
+                  | None -> []) order)
+                (map (fun x -> Act (n, x)) (init_acts op src others))), w6))
         | OSumAndCount ->
           let c = w.n_ctls in
           let n = w.n_nodes in
@@ -3362,13 +3501,15 @@ let step r w =
                set_node wt n { n_op = op; n_src = src; n_others = others;
                  n_st = st1; n_ctl = c }
              in
-             ((flat_map (fun i ->
-                match nth_error ups i with
-                | Some pp ->
-                  (match find_ser i entries with
-                   | Some o' -> (SubscribePipe ((snd pp), o')) :: []
-                   | None -> [])
-                | None -> []) order), w6)
+             ((app
+                (flat_map (fun i ->
+                  match nth_error ups i with
+                  | Some pp ->
+                    (match find_ser i entries with
+                     | Some o' -> (SubscribePipe ((snd pp), o')) :: []
+                     | None -> [])
+                  | None -> []) order)
+                (map (fun x -> Act (n, x)) (init_acts op src others))), w6)
            | OTap t ->
              let (ot, wt) = alloc_obs w4 (TTapLog t) in
              let st1 = st_set_aux st ot in
@@ -3376,25 +3517,29 @@ let step r w =
                set_node wt n { n_op = op; n_src = src; n_others = others;
                  n_st = st1; n_ctl = c }
              in
-             ((flat_map (fun i ->
-                match nth_error ups i with
-                | Some pp ->
-                  (match find_ser i entries with
-                   | Some o' -> (SubscribePipe ((snd pp), o')) :: []
-                   | None -> [])
-                | None -> []) order), w6)
+             ((app
+                (flat_map (fun i ->
+                  match nth_error ups i with
+                  | Some pp ->
+                    (match find_ser i entries with
+                     | Some o' -> (SubscribePipe ((snd pp), o')) :: []
+                     | None -> [])
+                  | None -> []) order)
+                (map (fun x -> Act (n, x)) (init_acts op src others))), w6)
            | _ ->
              let w6 =
                set_node w4 n { n_op = op; n_src = src; n_others = others;
                  n_st = st; n_ctl = c }
              in
-             ((flat_map (fun i ->
-                match nth_error ups i with
-                | Some pp ->
-                  (match find_ser i entries with
-                   | Some o' -> (SubscribePipe ((snd pp), o')) :: []
-                   | None -> [])
-                | None -> []) order), w6))
+             ((app
+                (flat_map (fun i ->
+                  match nth_error ups i with
+                  | Some pp ->
+                    (match find_ser i entries with
+                     | Some o' -> (SubscribePipe ((snd pp), o')) :: []
+                     | None -> [])
+                  | None -> []) order)
+                (map (fun x -> Act (n, x)) (init_acts op src others))), w6))
         | OMin ->
           let c = w.n_ctls in
           let n = w.n_nodes in
@@ -3421,13 +3566,15 @@ let step r w =
                set_node wt n { n_op = op; n_src = src; n_others = others;
                  n_st = st1; n_ctl = c }
              in
-             ((flat_map (fun i ->
-                match nth_error ups i with
-                | Some pp ->
-                  (match find_ser i entries with
-                   | Some o' -> (SubscribePipe ((snd pp), o')) :: []
-                   | None -> [])
-                | None -> []) order), w6)
+             ((app
+                (flat_map (fun i ->
+                  match nth_error ups i with
+                  | Some pp ->
+                    (match find_ser i entries with
+                     | Some o' -> (SubscribePipe ((snd pp), o')) :: []
+                     | None -> [])
+                  | None -> []) order)
+                (map (fun x -> Act (n, x)) (init_acts op src others))), w6)
            | OTap t ->
              let (ot, wt) = alloc_obs w4 (TTapLog t) in
              let st1 = st_set_aux st ot in
@@ -3435,25 +3582,29 @@ let step r w =
                set_node wt n { n_op = op; n_src = src; n_others = others;
                  n_st = st1; n_ctl = c }
              in
-             ((flat_map (fun i ->
-                match nth_error ups i with
-                | Some pp ->
-                  (match find_ser i entries with
-                   | Some o' -> (SubscribePipe ((snd pp), o')) :: []
-                   | None -> [])
-                | None -> []) order), w6)
+             ((app
+                (flat_map (fun i ->
+                  match nth_error ups i with
+                  | Some pp ->
+                    (match find_ser i entries with
+                     | Some o' -> (SubscribePipe ((snd pp), o')) :: []
+                     | None -> [])
+                  | None -> []) order)
+                (map (fun x -> Act (n, x)) (init_acts op src others))), w6)
            | _ ->
              let w6 =
                set_node w4 n { n_op = op; n_src = src; n_others = others;
                  n_st = st; n_ctl = c }
              in
-             ((flat_map (fun i ->
-                match nth_error ups i with
-                | Some pp ->
-                  (match find_ser i entries with
-                   | Some o' -> (SubscribePipe ((snd pp), o')) :: []
-                   | None -> [])
-                | None -> []) order), w6))
+             ((app
+                (flat_map (fun i ->
+                  match nth_error ups i with
+                  | Some pp ->
+                    (match find_ser i entries with
+                     | Some o' -> (SubscribePipe ((snd pp), o')) :: []
+                     | None -> [])
+                  | None -> []) order)
+                (map (fun x -> Act (n, x)) (init_acts op src others))), w6))
         | OMax ->
           let c = w.n_ctls in
           let n = w.n_nodes in
@@ -3480,13 +3631,15 @@ let step r w =
                set_node wt n { n_op = op; n_src = src; n_others = others;
                  n_st = st1; n_ctl = c }
              in
-             ((flat_map (fun i ->
-                match nth_error ups i with
-                | Some pp ->
-                  (match find_ser i entries with
-                   | Some o' -> (SubscribePipe ((snd pp), o')) :: []
-                   | None -> [])
-                | None -> []) order), w6)
+             ((app
+                (flat_map (fun i ->
+                  match nth_error ups i with
+                  | Some pp ->
+                    (match find_ser i entries with
+                     | Some o' -> (SubscribePipe ((snd pp), o')) :: []
+                     | None -> [])
+                  | None -> []) order)
+                (map (fun x -> Act (n, x)) (init_acts op src others))), w6)
            | OTap t ->
              let (ot, wt) = alloc_obs w4 (TTapLog t) in
              let st1 = st_set_aux st ot in
@@ -3494,25 +3647,29 @@ let step r w =
                set_node wt n { n_op = op; n_src = src; n_others = others;
                  n_st = st1; n_ctl = c }
              in
-             ((flat_map (fun i ->
-                match nth_error ups i with
-                | Some pp ->
-                  (match find_ser i entries with
-                   | Some o' -> (SubscribePipe ((snd pp), o')) :: []
-                   | None -> [])
-                | None -> []) order), w6)
+             ((app
+                (flat_map (fun i ->
+                  match nth_error ups i with
+                  | Some pp ->
+                    (match find_ser i entries with
+                     | Some o' -> (SubscribePipe ((snd pp), o')) :: []
+                     | None -> [])
+                  | None -> []) order)
+                (map (fun x -> Act (n, x)) (init_acts op src others))), w6)
            | _ ->
              let w6 =
                set_node w4 n { n_op = op; n_src = src; n_others = others;
                  n_st = st; n_ctl = c }
              in
-             ((flat_map (fun i ->
-                match nth_error ups i with
-                | Some pp ->
-                  (match find_ser i entries with
-                   | Some o' -> (SubscribePipe ((snd pp), o')) :: []
-                   | None -> [])
-                | None -> []) order), w6))
+             ((app
+                (flat_map (fun i ->
+                  match nth_error ups i with
+                  | Some pp ->
+                    (match find_ser i entries with
+                     | Some o' -> (SubscribePipe ((snd pp), o')) :: []
+                     | None -> [])
+                  | None -> []) order)
+                (map (fun x -> Act (n, x)) (init_acts op src others))), w6))
         | OAll _ ->
           let c = w.n_ctls in
           let n = w.n_nodes in
@@ -3539,13 +3696,15 @@ let step r w =
                set_node wt n { n_op = op; n_src = src; n_others = others;
                  n_st = st1; n_ctl = c }
              in
-             ((flat_map (fun i ->
-                match nth_error ups i with
-                | Some pp ->
-                  (match find_ser i entries with
-                   | Some o' -> (SubscribePipe ((snd pp), o')) :: []
-                   | None -> [])
-                | None -> []) order), w6)
+             ((app
+                (flat_map (fun i ->
+                  match nth_error ups i with
+                  | Some pp ->
+                    (match find_ser i entries with
+                     | Some o' -> (SubscribePipe ((snd pp), o')) :: []
+                     | None -> [])
+                  | None -> []) order)
+                (map (fun x -> Act (n, x)) (init_acts op src others))), w6)
            | OTap t ->
              let (ot, wt) = alloc_obs w4 (TTapLog t) in
              let st1 = st_set_aux st ot in
@@ -3553,25 +3712,29 @@ let step r w =
                set_node wt n { n_op = op; n_src = src; n_others = others;
                  n_st = st1; n_ctl = c }
              in
-             ((flat_map (fun i ->
-                match nth_error ups i with
-                | Some pp ->
-                  (match find_ser i entries with
-                   | Some o' -> (SubscribePipe ((snd pp), o')) :: []
-                   | None -> [])
-                | None -> []) order), w6)
+             ((app
+                (flat_map (fun i ->
+                  match nth_error ups i with
+                  | Some pp ->
+                    (match find_ser i entries with
+                     | Some o' -> (SubscribePipe ((snd pp), o')) :: []
+                     | None -> [])
+                  | None -> []) order)
+                (map (fun x -> Act (n, x)) (init_acts op src others))), w6)
            | _ ->
              let w6 =
                set_node w4 n { n_op = op; n_src = src; n_others = others;
                  n_st = st; n_ctl = c }
              in
-             ((flat_map (fun i ->
-                match nth_error ups i with
-                | Some pp ->
-                  (match find_ser i entries with
-                   | Some o' -> (SubscribePipe ((snd pp), o')) :: []
-                   | None -> [])
-                | None -> []) order), w6))
+             ((app
+                (flat_map (fun i ->
+                  match nth_error ups i with
+                  | Some pp ->
+                    (match find_ser i entries with
+                     | Some o' -> (SubscribePipe ((snd pp), o')) :: []
+                     | None -> [])
+                  | None -> []) order)
+                (map (fun x -> Act (n, x)) (init_acts op src others))), w6))
         | OContains _ ->
           let c = w.n_ctls in
           let n = w.n_nodes in
@@ -3598,13 +3761,15 @@ let step r w =
                set_node wt n { n_op = op; n_src = src; n_others = others;
                  n_st = st1; n_ctl = c }
              in
-             ((flat_map (fun i ->
-                match nth_error ups i with
-                | Some pp ->
-                  (match find_ser i entries with
-                   | Some o' -> (SubscribePipe ((snd pp), o')) :: []
-                   | None -> [])
-                | None -> []) order), w6)
+             ((app
+                (flat_map (fun i ->
+                  match nth_error ups i with
+                  | Some pp ->
+                    (match find_ser i entries with
+                     | Some o' -> (SubscribePipe ((snd pp), o')) :: []
+                     | None -> [])
+                  | None -> []) order)
+                (map (fun x -> Act (n, x)) (init_acts op src others))), w6)
            | OTap t ->
              let (ot, wt) = alloc_obs w4 (TTapLog t) in
              let st1 = st_set_aux st ot in
@@ -3612,25 +3777,29 @@ let step r w =
                set_node wt n { n_op = op; n_src = src; n_others = others;
                  n_st = st1; n_ctl = c }
              in
-             ((flat_map (fun i ->
-                match nth_error ups i with
-                | Some pp ->
-                  (match find_ser i entries with
-                   | Some o' -> (SubscribePipe ((snd pp), o')) :: []
-                   | None -> [])
-                | None -> []) order), w6)
+             ((app
+                (flat_map (fun i ->
+                  match nth_error ups i with
+                  | Some pp ->
+                    (match find_ser i entries with
+                     | Some o' -> (SubscribePipe ((snd pp), o')) :: []
+                     | None -> [])
+                  | None -> []) order)
+                (map (fun x -> Act (n, x)) (init_acts op src others))), w6)
            | _ ->
              let w6 =
                set_node w4 n { n_op = op; n_src = src; n_others = others;
                  n_st = st; n_ctl = c }
              in
-             ((flat_map (fun i ->
-                match nth_error ups i with
-                | Some pp ->
-                  (match find_ser i entries with
-                   | Some o' -> (SubscribePipe ((snd pp), o')) :: []
-                   | None -> [])
-                | None -> []) order), w6))
+             ((app
+                (flat_map (fun i ->
+                  match nth_error ups i with
+                  | Some pp ->
+                    (match find_ser i entries with
+                     | Some o' -> (SubscribePipe ((snd pp), o')) :: []
+                     | None -> [])
+                  | None -> []) order)
+                (map (fun x -> Act (n, x)) (init_acts op src others))), w6))
         | ODefaultIfEmpty _ ->
           let c = w.n_ctls in
           let n = w.n_nodes in
@@ -3657,13 +3826,15 @@ let step r w =
                set_node wt n { n_op = op; n_src = src; n_others = others;
                  n_st = st1; n_ctl = c }
              in
-             ((flat_map (fun i ->
-                match nth_error ups i with
-                | Some pp ->
-                  (match find_ser i entries with
-                   | Some o' -> (SubscribePipe ((snd pp), o')) :: []
-                   | None -> [])
-                | None -> []) order), w6)
+             ((app
+                (flat_map (fun i ->
+                  match nth_error ups i with
+                  | Some pp ->
+                    (match find_ser i entries with
+                     | Some o' -> (SubscribePipe ((snd pp), o')) :: []
+                     | None -> [])
+                  | None -> []) order)
+                (map (fun x -> Act (n, x)) (init_acts op src others))), w6)
            | OTap t ->
              let (ot, wt) = alloc_obs w4 (TTapLog t) in
              let st1 = st_set_aux st ot in
@@ -3671,25 +3842,29 @@ let step r w =
                set_node wt n { n_op = op; n_src = src; n_others = others;
                  n_st = st1; n_ctl = c }
              in
-             ((flat_map (fun i ->
-                match nth_error ups i with
-                | Some pp ->
-                  (match find_ser i entries with
-                   | Some o' -> (SubscribePipe ((snd pp), o')) :: []
-                   | None -> [])
-                | None -> []) order), w6)
+             ((app
+                (flat_map (fun i ->
+                  match nth_error ups i with
+                  | Some pp ->
+                    (match find_ser i entries with
+                     | Some o' -> (SubscribePipe ((snd pp), o')) :: []
+                     | None -> [])
+                  | None -> []) order)
+                (map (fun x -> Act (n, x)) (init_acts op src others))), w6)
            | _ ->
              let w6 =
                set_node w4 n { n_op = op; n_src = src; n_others = others;
                  n_st = st; n_ctl = c }
              in
-             ((flat_map (fun i ->
-                match nth_error ups i with
-                | Some pp ->
-                  (match find_ser i entries with
-                   | Some o' -> (SubscribePipe ((snd pp), o')) :: []
-                   | None -> [])
-                | None -> []) order), w6))
+             ((app
+                (flat_map (fun i ->
+                  match nth_error ups i with
+                  | Some pp ->
+                    (match find_ser i entries with
+                     | Some o' -> (SubscribePipe ((snd pp), o')) :: []
+                     | None -> [])
+                  | None -> []) order)
+                (map (fun x -> Act (n, x)) (init_acts op src others))), w6))
         | OIgnore ->
           let c = w.n_ctls in
           let n = w.n_nodes in
@@ -3716,13 +3891,15 @@ let step r w =
                set_node wt n { n_op = op; n_src = src; n_others = others;
                  n_st = st1; n_ctl = c }
              in
-             ((flat_map (fun i ->
-                match nth_error ups i with
-                | Some pp ->
-                  (match find_ser i entries with
-                   | Some o' -> (SubscribePipe ((snd pp), o')) :: []
-                   | None -> [])
-                | None -> []) order), w6)
+             ((app
+                (flat_map (fun i ->
+                  match nth_error ups i with
+                  | Some pp ->
+                    (match find_ser i entries with
+                     | Some o' -> (SubscribePipe ((snd pp), o')) :: []
+                     | None -> [])
+                  | None -> []) order)
+                (map (fun x -> Act (n, x)) (init_acts op src others))), w6)
            | OTap t ->
              let (ot, wt) = alloc_obs w4 (TTapLog t) in
              let st1 = st_set_aux st ot in
@@ -3730,25 +3907,29 @@ let step r w =
                set_node wt n { n_op = op; n_src = src; n_others = others;
                  n_st = st1; n_ctl = c }
              in
-             ((flat_map (fun i ->
-                match nth_error ups i with
-                | Some pp ->
-                  (match find_ser i entries with
-                   | Some o' -> (SubscribePipe ((snd pp), o')) :: []
-                   | None -> [])
-                | None -> []) order), w6)
+             ((app
+                (flat_map (fun i ->
+                  match nth_error ups i with
+                  | Some pp ->
+                    (match find_ser i entries with
+                     | Some o' -> (SubscribePipe ((snd pp), o')) :: []
+                     | None -> [])
+                  | None -> []) order)
+                (map (fun x -> Act (n, x)) (init_acts op src others))), w6)
            | _ ->
              let w6 =
                set_node w4 n { n_op = op; n_src = src; n_others = others;
                  n_st = st; n_ctl = c }
              in
-             ((flat_map (fun i ->
-                match nth_error ups i with
-                | Some pp ->
-                  (match find_ser i entries with
-                   | Some o' -> (SubscribePipe ((snd pp), o')) :: []
-                   | None -> [])
-                | None -> []) order), w6))
+             ((app
+                (flat_map (fun i ->
+                  match nth_error ups i with
+                  | Some pp ->
+                    (match find_ser i entries with
+                     | Some o' -> (SubscribePipe ((snd pp), o')) :: []
+                     | None -> [])
+                  | None -> []) order)
+                (map (fun x -> Act (n, x)) (init_acts op src others))), w6))
         | OStartWith l -> (((StartWith (o, l, src)) :: []), w)
         | OBuffer _ ->
           let c = w.n_ctls in
@@ -3776,13 +3957,15 @@ let step r w =
                set_node wt n { n_op = op; n_src = src; n_others = others;
                  n_st = st1; n_ctl = c }
              in
-             ((flat_map (fun i ->
-                match nth_error ups i with
-                | Some pp ->
-                  (match find_ser i entries with
-                   | Some o' -> (SubscribePipe ((snd pp), o')) :: []
-                   | None -> [])
-                | None -> []) order), w6)
+             ((app
+                (flat_map (fun i ->
+                  match nth_error ups i with
+                  | Some pp ->
+                    (match find_ser i entries with
+                     | Some o' -> (SubscribePipe ((snd pp), o')) :: []
+                     | None -> [])
+                  | None -> []) order)
+                (map (fun x -> Act (n, x)) (init_acts op src others))), w6)
            | OTap t ->
              let (ot, wt) = alloc_obs w4 (TTapLog t) in
              let st1 = st_set_aux st ot in
@@ -3790,25 +3973,29 @@ let step r w =
                set_node wt n { n_op = op; n_src = src; n_others = others;
                  n_st = st1; n_ctl = c }
              in
-             ((flat_map (fun i ->
-                match nth_error ups i with
-                | Some pp ->
-                  (match find_ser i entries with
-                   | Some o' -> (SubscribePipe ((snd pp), o')) :: []
-                   | None -> [])
-                | None -> []) order), w6)
+             ((app
+                (flat_map (fun i ->
+                  match nth_error ups i with
+                  | Some pp ->
+                    (match find_ser i entries with
+                     | Some o' -> (SubscribePipe ((snd pp), o')) :: []
+                     | None -> [])
+                  | None -> []) order)
+                (map (fun x -> Act (n, x)) (init_acts op src others))), w6)
            | _ ->
              let w6 =
                set_node w4 n { n_op = op; n_src = src; n_others = others;
                  n_st = st; n_ctl = c }
              in
-             ((flat_map (fun i ->
-                match nth_error ups i with
-                | Some pp ->
-                  (match find_ser i entries with
-                   | Some o' -> (SubscribePipe ((snd pp), o')) :: []
-                   | None -> [])
-                | None -> []) order), w6))
+             ((app
+                (flat_map (fun i ->
+                  match nth_error ups i with
+                  | Some pp ->
+                    (match find_ser i entries with
+                     | Some o' -> (SubscribePipe ((snd pp), o')) :: []
+                     | None -> [])
+                  | None -> []) order)
+                (map (fun x -> Act (n, x)) (init_acts op src others))), w6))
         | OWindow _ ->
           let c = w.n_ctls in
           let n = w.n_nodes in
@@ -3835,13 +4022,15 @@ let step r w =
                set_node wt n { n_op = op; n_src = src; n_others = others;
                  n_st = st1; n_ctl = c }
              in
-             ((flat_map (fun i ->
-                match nth_error ups i with
-                | Some pp ->
-                  (match find_ser i entries with
-                   | Some o' -> (SubscribePipe ((snd pp), o')) :: []
-                   | None -> [])
-                | None -> []) order), w6)
+             ((app
+                (flat_map (fun i ->
+                  match nth_error ups i with
+                  | Some pp ->
+                    (match find_ser i entries with
+                     | Some o' -> (SubscribePipe ((snd pp), o')) :: []
+                     | None -> [])
+                  | None -> []) order)
+                (map (fun x -> Act (n, x)) (init_acts op src others))), w6)
            | OTap t ->
              let (ot, wt) = alloc_obs w4 (TTapLog t) in
              let st1 = st_set_aux st ot in
@@ -3849,25 +4038,29 @@ let step r w =
                set_node wt n { n_op = op; n_src = src; n_others = others;
                  n_st = st1; n_ctl = c }
              in
-             ((flat_map (fun i ->
-                match nth_error ups i with
-                | Some pp ->
-                  (match find_ser i entries with
-                   | Some o' -> (SubscribePipe ((snd pp), o')) :: []
-                   | None -> [])
-                | None -> []) order), w6)
+             ((app
+                (flat_map (fun i ->
+                  match nth_error ups i with
+                  | Some pp ->
+                    (match find_ser i entries with
+                     | Some o' -> (SubscribePipe ((snd pp), o')) :: []
+                     | None -> [])
+                  | None -> []) order)
+                (map (fun x -> Act (n, x)) (init_acts op src others))), w6)
            | _ ->
              let w6 =
                set_node w4 n { n_op = op; n_src = src; n_others = others;
                  n_st = st; n_ctl = c }
              in
-             ((flat_map (fun i ->
-                match nth_error ups i with
-                | Some pp ->
-                  (match find_ser i entries with
-                   | Some o' -> (SubscribePipe ((snd pp), o')) :: []
-                   | None -> [])
-                | None -> []) order), w6))
+             ((app
+                (flat_map (fun i ->
+                  match nth_error ups i with
+                  | Some pp ->
+                    (match find_ser i entries with
+                     | Some o' -> (SubscribePipe ((snd pp), o')) :: []
+                     | None -> [])
+                  | None -> []) order)
+                (map (fun x -> Act (n, x)) (init_acts op src others))), w6))
         | OGroupBy _ ->
           let c = w.n_ctls in
           let n = w.n_nodes in
@@ -3894,13 +4087,15 @@ let step r w =
                set_node wt n { n_op = op; n_src = src; n_others = others;
                  n_st = st1; n_ctl = c }
              in
-             ((flat_map (fun i ->
-                match nth_error ups i with
-                | Some pp ->
-                  (match find_ser i entries with
-                   | Some o' -> (SubscribePipe ((snd pp), o')) :: []
-                   | None -> [])
-                | None -> []) order), w6)
+             ((app
+                (flat_map (fun i ->
+                  match nth_error ups i with
+                  | Some pp ->
+                    (match find_ser i entries with
+                     | Some o' -> (SubscribePipe ((snd pp), o')) :: []
+                     | None -> [])
+                  | None -> []) order)
+                (map (fun x -> Act (n, x)) (init_acts op src others))), w6)
            | OTap t ->
              let (ot, wt) = alloc_obs w4 (TTapLog t) in
              let st1 = st_set_aux st ot in
@@ -3908,25 +4103,29 @@ let step r w =
                set_node wt n { n_op = op; n_src = src; n_others = others;
                  n_st = st1; n_ctl = c }
              in
-             ((flat_map (fun i ->
-                match nth_error ups i with
-                | Some pp ->
-                  (match find_ser i entries with
-                   | Some o' -> (SubscribePipe ((snd pp), o')) :: []
-                   | None -> [])
-                | None -> []) order), w6)
+             ((app
+                (flat_map (fun i ->
+                  match nth_error ups i with
+                  | Some pp ->
+                    (match find_ser i entries with
+                     | Some o' -> (SubscribePipe ((snd pp), o')) :: []
+                     | None -> [])
+                  | None -> []) order)
+                (map (fun x -> Act (n, x)) (init_acts op src others))), w6)
            | _ ->
              let w6 =
                set_node w4 n { n_op = op; n_src = src; n_others = others;
                  n_st = st; n_ctl = c }
              in
-             ((flat_map (fun i ->
-                match nth_error ups i with
-                | Some pp ->
-                  (match find_ser i entries with
-                   | Some o' -> (SubscribePipe ((snd pp), o')) :: []
-                   | None -> [])
-                | None -> []) order), w6))
+             ((app
+                (flat_map (fun i ->
+                  match nth_error ups i with
+                  | Some pp ->
+                    (match find_ser i entries with
+                     | Some o' -> (SubscribePipe ((snd pp), o')) :: []
+                     | None -> [])
+                  | None -> []) order)
+                (map (fun x -> Act (n, x)) (init_acts op src others))), w6))
         | OMaterialize ->
           let c = w.n_ctls in
           let n = w.n_nodes in
@@ -3953,13 +4152,15 @@ let step r w =
                set_node wt n { n_op = op; n_src = src; n_others = others;
                  n_st = st1; n_ctl = c }
              in
-             ((flat_map (fun i ->
-                match nth_error ups i with
-                | Some pp ->
-                  (match find_ser i entries with
-                   | Some o' -> (SubscribePipe ((snd pp), o')) :: []
-                   | None -> [])
-                | None -> []) order), w6)
+             ((app
+                (flat_map (fun i ->
+                  match nth_error ups i with
+                  | Some pp ->
+                    (match find_ser i entries with
+                     | Some o' -> (SubscribePipe ((snd pp), o')) :: []
+                     | None -> [])
+                  | None -> []) order)
+                (map (fun x -> Act (n, x)) (init_acts op src others))), w6)
            | OTap t ->
              let (ot, wt) = alloc_obs w4 (TTapLog t) in
              let st1 = st_set_aux st ot in
@@ -3967,25 +4168,29 @@ let step r w =
                set_node wt n { n_op = op; n_src = src; n_others = others;
                  n_st = st1; n_ctl = c }
              in
-             ((flat_map (fun i ->
-                match nth_error ups i with
-                | Some pp ->
-                  (match find_ser i entries with
-                   | Some o' -> (SubscribePipe ((snd pp), o')) :: []
-                   | None -> [])
-                | None -> []) order), w6)
+             ((app
+                (flat_map (fun i ->
+                  match nth_error ups i with
+                  | Some pp ->
+                    (match find_ser i entries with
+                     | Some o' -> (SubscribePipe ((snd pp), o')) :: []
+                     | None -> [])
+                  | None -> []) order)
+                (map (fun x -> Act (n, x)) (init_acts op src others))), w6)
            | _ ->
              let w6 =
                set_node w4 n { n_op = op; n_src = src; n_others = others;
                  n_st = st; n_ctl = c }
              in
-             ((flat_map (fun i ->
-                match nth_error ups i with
-                | Some pp ->
-                  (match find_ser i entries with
-                   | Some o' -> (SubscribePipe ((snd pp), o')) :: []
-                   | None -> [])
-                | None -> []) order), w6))
+             ((app
+                (flat_map (fun i ->
+                  match nth_error ups i with
+                  | Some pp ->
+                    (match find_ser i entries with
+                     | Some o' -> (SubscribePipe ((snd pp), o')) :: []
+                     | None -> [])
+                  | None -> []) order)
+                (map (fun x -> Act (n, x)) (init_acts op src others))), w6))
         | ODematerialize ->
           let c = w.n_ctls in
           let n = w.n_nodes in
@@ -4012,13 +4217,15 @@ let step r w =
                set_node wt n { n_op = op; n_src = src; n_others = others;
                  n_st = st1; n_ctl = c }
              in
-             ((flat_map (fun i ->
-                match nth_error ups i with
-                | Some pp ->
-                  (match find_ser i entries with
-                   | Some o' -> (SubscribePipe ((snd pp), o')) :: []
-                   | None -> [])
-                | None -> []) order), w6)
+             ((app
+                (flat_map (fun i ->
+                  match nth_error ups i with
+                  | Some pp ->
+                    (match find_ser i entries with
+                     | Some o' -> (SubscribePipe ((snd pp), o')) :: []
+                     | None -> [])
+                  | None -> []) order)
+                (map (fun x -> Act (n, x)) (init_acts op src others))), w6)
            | OTap t ->
              let (ot, wt) = alloc_obs w4 (TTapLog t) in
              let st1 = st_set_aux st ot in
@@ -4026,25 +4233,29 @@ let step r w =
                set_node wt n { n_op = op; n_src = src; n_others = others;
                  n_st = st1; n_ctl = c }
              in
-             ((flat_map (fun i ->
-                match nth_error ups i with
-                | Some pp ->
-                  (match find_ser i entries with
-                   | Some o' -> (SubscribePipe ((snd pp), o')) :: []
-                   | None -> [])
-                | None -> []) order), w6)
+             ((app
+                (flat_map (fun i ->
+                  match nth_error ups i with
+                  | Some pp ->
+                    (match find_ser i entries with
+                     | Some o' -> (SubscribePipe ((snd pp), o')) :: []
+                     | None -> [])
+                  | None -> []) order)
+                (map (fun x -> Act (n, x)) (init_acts op src others))), w6)
            | _ ->
              let w6 =
                set_node w4 n { n_op = op; n_src = src; n_others = others;
                  n_st = st; n_ctl = c }
              in
-             ((flat_map (fun i ->
-                match nth_error ups i with
-                | Some pp ->
-                  (match find_ser i entries with
-                   | Some o' -> (SubscribePipe ((snd pp), o')) :: []
-                   | None -> [])
-                | None -> []) order), w6))
+             ((app
+                (flat_map (fun i ->
+                  match nth_error ups i with
+                  | Some pp ->
+                    (match find_ser i entries with
+                     | Some o' -> (SubscribePipe ((snd pp), o')) :: []
+                     | None -> [])
+                  | None -> []) order)
+                (map (fun x -> Act (n, x)) (init_acts op src others))), w6))
         | OTap _ ->
           let c = w.n_ctls in
           let n = w.n_nodes in
@@ -4071,13 +4282,15 @@ let step r w =
                set_node wt n { n_op = op; n_src = src; n_others = others;
                  n_st = st1; n_ctl = c }
              in
-             ((flat_map (fun i ->
-                match nth_error ups i with
-                | Some pp ->
-                  (match find_ser i entries with
-                   | Some o' -> (SubscribePipe ((snd pp), o')) :: []
-                   | None -> [])
-                | None -> []) order), w6)
+             ((app
+                (flat_map (fun i ->
+                  match nth_error ups i with
+                  | Some pp ->
+                    (match find_ser i entries with
+                     | Some o' -> (SubscribePipe ((snd pp), o')) :: []
+                     | None -> [])
+                  | None -> []) order)
+                (map (fun x -> Act (n, x)) (init_acts op src others))), w6)
            | OTap t ->
              let (ot, wt) = alloc_obs w4 (TTapLog t) in
              let st1 = st_set_aux st ot in
@@ -4085,25 +4298,29 @@ let step r w =
                set_node wt n { n_op = op; n_src = src; n_others = others;
                  n_st = st1; n_ctl = c }
              in
-             ((flat_map (fun i ->
-                match nth_error ups i with
-                | Some pp ->
-                  (match find_ser i entries with
-                   | Some o' -> (SubscribePipe ((snd pp), o')) :: []
-                   | None -> [])
-                | None -> []) order), w6)
+             ((app
+                (flat_map (fun i ->
+                  match nth_error ups i with
+                  | Some pp ->
+                    (match find_ser i entries with
+                     | Some o' -> (SubscribePipe ((snd pp), o')) :: []
+                     | None -> [])
+                  | None -> []) order)
+                (map (fun x -> Act (n, x)) (init_acts op src others))), w6)
            | _ ->
              let w6 =
                set_node w4 n { n_op = op; n_src = src; n_others = others;
                  n_st = st; n_ctl = c }
              in
-             ((flat_map (fun i ->
-                match nth_error ups i with
-                | Some pp ->
-                  (match find_ser i entries with
-                   | Some o' -> (SubscribePipe ((snd pp), o')) :: []
-                   | None -> [])
-                | None -> []) order), w6))
+             ((app
+                (flat_map (fun i ->
+                  match nth_error ups i with
+                  | Some pp ->
+                    (match find_ser i entries with
+                     | Some o' -> (SubscribePipe ((snd pp), o')) :: []
+                     | None -> [])
+                  | None -> []) order)
+                (map (fun x -> Act (n, x)) (init_acts op src others))), w6))
         | OMapToAny ->
           let c = w.n_ctls in
           let n = w.n_nodes in
@@ -4130,13 +4347,15 @@ let step r w =
                set_node wt n { n_op = op; n_src = src; n_others = others;
                  n_st = st1; n_ctl = c }
              in
-             ((flat_map (fun i ->
-                match nth_error ups i with
-                | Some pp ->
-                  (match find_ser i entries with
-                   | Some o' -> (SubscribePipe ((snd pp), o')) :: []
-                   | None -> [])
-                | None -> []) order), w6)
+             ((app
+                (flat_map (fun i ->
+                  match nth_error ups i with
+                  | Some pp ->
+                    (match find_ser i entries with
+                     | Some o' -> (SubscribePipe ((snd pp), o')) :: []
+                     | None -> [])
+                  | None -> []) order)
+                (map (fun x -> Act (n, x)) (init_acts op src others))), w6)
            | OTap t ->
              let (ot, wt) = alloc_obs w4 (TTapLog t) in
              let st1 = st_set_aux st ot in
@@ -4144,25 +4363,29 @@ let step r w =
                set_node wt n { n_op = op; n_src = src; n_others = others;
                  n_st = st1; n_ctl = c }
              in
-             ((flat_map (fun i ->
-                match nth_error ups i with
-                | Some pp ->
-                  (match find_ser i entries with
-                   | Some o' -> (SubscribePipe ((snd pp), o')) :: []
-                   | None -> [])
-                | None -> []) order), w6)
+             ((app
+                (flat_map (fun i ->
+                  match nth_error ups i with
+                  | Some pp ->
+                    (match find_ser i entries with
+                     | Some o' -> (SubscribePipe ((snd pp), o')) :: []
+                     | None -> [])
+                  | None -> []) order)
+                (map (fun x -> Act (n, x)) (init_acts op src others))), w6)
            | _ ->
              let w6 =
                set_node w4 n { n_op = op; n_src = src; n_others = others;
                  n_st = st; n_ctl = c }
              in
-             ((flat_map (fun i ->
-                match nth_error ups i with
-                | Some pp ->
-                  (match find_ser i entries with
-                   | Some o' -> (SubscribePipe ((snd pp), o')) :: []
-                   | None -> [])
-                | None -> []) order), w6))
+             ((app
+                (flat_map (fun i ->
+                  match nth_error ups i with
+                  | Some pp ->
+                    (match find_ser i entries with
+                     | Some o' -> (SubscribePipe ((snd pp), o')) :: []
+                     | None -> [])
+                  | None -> []) order)
+                (map (fun x -> Act (n, x)) (init_acts op src others))), w6))
         | OMerge ->
           let c = w.n_ctls in
           let n = w.n_nodes in
@@ -4189,13 +4412,15 @@ let step r w =
                set_node wt n { n_op = op; n_src = src; n_others = others;
                  n_st = st1; n_ctl = c }
              in
-             ((flat_map (fun i ->
-                match nth_error ups i with
-                | Some pp ->
-                  (match find_ser i entries with
-                   | Some o' -> (SubscribePipe ((snd pp), o')) :: []
-                   | None -> [])
-                | None -> []) order), w6)
+             ((app
+                (flat_map (fun i ->
+                  match nth_error ups i with
+                  | Some pp ->
+                    (match find_ser i entries with
+                     | Some o' -> (SubscribePipe ((snd pp), o')) :: []
+                     | None -> [])
+                  | None -> []) order)
+                (map (fun x -> Act (n, x)) (init_acts op src others))), w6)
            | OTap t ->
              let (ot, wt) = alloc_obs w4 (TTapLog t) in
              let st1 = st_set_aux st ot in
@@ -4203,25 +4428,29 @@ let step r w =
                set_node wt n { n_op = op; n_src = src; n_others = others;
                  n_st = st1; n_ctl = c }
              in
-             ((flat_map (fun i ->
-                match nth_error ups i with
-                | Some pp ->
-                  (match find_ser i entries with
-                   | Some o' -> (SubscribePipe ((snd pp), o')) :: []
-                   | None -> [])
-                | None -> []) order), w6)
+             ((app
+                (flat_map (fun i ->
+                  match nth_error ups i with
+                  | Some pp ->
+                    (match find_ser i entries with
+                     | Some o' -> (SubscribePipe ((snd pp), o')) :: []
+                     | None -> [])
+                  | None -> []) order)
+                (map (fun x -> Act (n, x)) (init_acts op src others))), w6)
            | _ ->
              let w6 =
                set_node w4 n { n_op = op; n_src = src; n_others = others;
                  n_st = st; n_ctl = c }
              in
-             ((flat_map (fun i ->
-                match nth_error ups i with
-                | Some pp ->
-                  (match find_ser i entries with
-                   | Some o' -> (SubscribePipe ((snd pp), o')) :: []
-                   | None -> [])
-                | None -> []) order), w6))
+             ((app
+                (flat_map (fun i ->
+                  match nth_error ups i with
+                  | Some pp ->
+                    (match find_ser i entries with
+                     | Some o' -> (SubscribePipe ((snd pp), o')) :: []
+                     | None -> [])
+                  | None -> []) order)
+                (map (fun x -> Act (n, x)) (init_acts op src others))), w6))
         | OFlatMap _ ->
           let c = w.n_ctls in
           let n = w.n_nodes in
@@ -4248,13 +4477,15 @@ let step r w =
                set_node wt n { n_op = op; n_src = src; n_others = others;
                  n_st = st1; n_ctl = c }
              in
-             ((flat_map (fun i ->
-                match nth_error ups i with
-                | Some pp ->
-                  (match find_ser i entries with
-                   | Some o' -> (SubscribePipe ((snd pp), o')) :: []
-                   | None -> [])
-                | None -> []) order), w6)
+             ((app
+                (flat_map (fun i ->
+                  match nth_error ups i with
+                  | Some pp ->
+                    (match find_ser i entries with
+                     | Some o' -> (SubscribePipe ((snd pp), o')) :: []
+                     | None -> [])
+                  | None -> []) order)
+                (map (fun x -> Act (n, x)) (init_acts op src others))), w6)
            | OTap t ->
              let (ot, wt) = alloc_obs w4 (TTapLog t) in
              let st1 = st_set_aux st ot in
@@ -4262,25 +4493,29 @@ let step r w =
                set_node wt n { n_op = op; n_src = src; n_others = others;
                  n_st = st1; n_ctl = c }
              in
-             ((flat_map (fun i ->
-                match nth_error ups i with
-                | Some pp ->
-                  (match find_ser i entries with
-                   | Some o' -> (SubscribePipe ((snd pp), o')) :: []
-                   | None -> [])
-                | None -> []) order), w6)
+             ((app
+                (flat_map (fun i ->
+                  match nth_error ups i with
+                  | Some pp ->
+                    (match find_ser i entries with
+                     | Some o' -> (SubscribePipe ((snd pp), o')) :: []
+                     | None -> [])
+                  | None -> []) order)
+                (map (fun x -> Act (n, x)) (init_acts op src others))), w6)
            | _ ->
              let w6 =
                set_node w4 n { n_op = op; n_src = src; n_others = others;
                  n_st = st; n_ctl = c }
              in
-             ((flat_map (fun i ->
-                match nth_error ups i with
-                | Some pp ->
-                  (match find_ser i entries with
-                   | Some o' -> (SubscribePipe ((snd pp), o')) :: []
-                   | None -> [])
-                | None -> []) order), w6))
+             ((app
+                (flat_map (fun i ->
+                  match nth_error ups i with
+                  | Some pp ->
+                    (match find_ser i entries with
+                     | Some o' -> (SubscribePipe ((snd pp), o')) :: []
+                     | None -> [])
+                  | None -> []) order)
+                (map (fun x -> Act (n, x)) (init_acts op src others))), w6))
         | OConcat ->
           let c = w.n_ctls in
           let n = w.n_nodes in
@@ -4307,13 +4542,15 @@ let step r w =
                set_node wt n { n_op = op; n_src = src; n_others = others;
                  n_st = st1; n_ctl = c }
              in
-             ((flat_map (fun i ->
-                match nth_error ups i with
-                | Some pp ->
-                  (match find_ser i entries with
-                   | Some o' -> (SubscribePipe ((snd pp), o')) :: []
-                   | None -> [])
-                | None -> []) order), w6)
+             ((app
+                (flat_map (fun i ->
+                  match nth_error ups i with
+                  | Some pp ->
+                    (match find_ser i entries with
+                     | Some o' -> (SubscribePipe ((snd pp), o')) :: []
+                     | None -> [])
+                  | None -> []) order)
+                (map (fun x -> Act (n, x)) (init_acts op src others))), w6)
            | OTap t ->
              let (ot, wt) = alloc_obs w4 (TTapLog t) in
              let st1 = st_set_aux st ot in
@@ -4321,25 +4558,29 @@ let step r w =
                set_node wt n { n_op = op; n_src = src; n_others = others;
                  n_st = st1; n_ctl = c }
              in
-             ((flat_map (fun i ->
-                match nth_error ups i with
-                | Some pp ->
-                  (match find_ser i entries with
-                   | Some o' -> (SubscribePipe ((snd pp), o')) :: []
-                   | None -> [])
-                | None -> []) order), w6)
+             ((app
+                (flat_map (fun i ->
+                  match nth_error ups i with
+                  | Some pp ->
+                    (match find_ser i entries with
+                     | Some o' -> (SubscribePipe ((snd pp), o')) :: []
+                     | None -> [])
+                  | None -> []) order)
+                (map (fun x -> Act (n, x)) (init_acts op src others))), w6)
            | _ ->
              let w6 =
                set_node w4 n { n_op = op; n_src = src; n_others = others;
                  n_st = st; n_ctl = c }
              in
-             ((flat_map (fun i ->
-                match nth_error ups i with
-                | Some pp ->
-                  (match find_ser i entries with
-                   | Some o' -> (SubscribePipe ((snd pp), o')) :: []
-                   | None -> [])
-                | None -> []) order), w6))
+             ((app
+                (flat_map (fun i ->
+                  match nth_error ups i with
+                  | Some pp ->
+                    (match find_ser i entries with
+                     | Some o' -> (SubscribePipe ((snd pp), o')) :: []
+                     | None -> [])
+                  | None -> []) order)
+                (map (fun x -> Act (n, x)) (init_acts op src others))), w6))
         | OZip ->
           let c = w.n_ctls in
           let n = w.n_nodes in
@@ -4366,13 +4607,15 @@ let step r w =
                set_node wt n { n_op = op; n_src = src; n_others = others;
                  n_st = st1; n_ctl = c }
              in
-             ((flat_map (fun i ->
-                match nth_error ups i with
-                | Some pp ->
-                  (match find_ser i entries with
-                   | Some o' -> (SubscribePipe ((snd pp), o')) :: []
-                   | None -> [])
-                | None -> []) order), w6)
+             ((app
+                (flat_map (fun i ->
+                  match nth_error ups i with
+                  | Some pp ->
+                    (match find_ser i entries with
+                     | Some o' -> (SubscribePipe ((snd pp), o')) :: []
+                     | None -> [])
+                  | None -> []) order)
+                (map (fun x -> Act (n, x)) (init_acts op src others))), w6)
            | OTap t ->
              let (ot, wt) = alloc_obs w4 (TTapLog t) in
              let st1 = st_set_aux st ot in
@@ -4380,25 +4623,29 @@ let step r w =
                set_node wt n { n_op = op; n_src = src; n_others = others;
                  n_st = st1; n_ctl = c }
              in
-             ((flat_map (fun i ->
-                match nth_error ups i with
-                | Some pp ->
-                  (match find_ser i entries with
-                   | Some o' -> (SubscribePipe ((snd pp), o')) :: []
-                   | None -> [])
-                | None -> []) order), w6)
+             ((app
+                (flat_map (fun i ->
+                  match nth_error ups i with
+                  | Some pp ->
+                    (match find_ser i entries with
+                     | Some o' -> (SubscribePipe ((snd pp), o')) :: []
+                     | None -> [])
+                  | None -> []) order)
+                (map (fun x -> Act (n, x)) (init_acts op src others))), w6)
            | _ ->
              let w6 =
                set_node w4 n { n_op = op; n_src = src; n_others = others;
                  n_st = st; n_ctl = c }
              in
-             ((flat_map (fun i ->
-                match nth_error ups i with
-                | Some pp ->
-                  (match find_ser i entries with
-                   | Some o' -> (SubscribePipe ((snd pp), o')) :: []
-                   | None -> [])
-                | None -> []) order), w6))
+             ((app
+                (flat_map (fun i ->
+                  match nth_error ups i with
+                  | Some pp ->
+                    (match find_ser i entries with
+                     | Some o' -> (SubscribePipe ((snd pp), o')) :: []
+                     | None -> [])
+                  | None -> []) order)
+                (map (fun x -> Act (n, x)) (init_acts op src others))), w6))
         | OCombineLatest _ ->
           let c = w.n_ctls in
           let n = w.n_nodes in
@@ -4425,13 +4672,15 @@ let step r w =
                set_node wt n { n_op = op; n_src = src; n_others = others;
                  n_st = st1; n_ctl = c }
              in
-             ((flat_map (fun i ->
-                match nth_error ups i with
-                | Some pp ->
-                  (match find_ser i entries with
-                   | Some o' -> (SubscribePipe ((snd pp), o')) :: []
-                   | None -> [])
-                | None -> []) order), w6)
+             ((app
+                (flat_map (fun i ->
+                  match nth_error ups i with
+                  | Some pp ->
+                    (match find_ser i entries with
+                     | Some o' -> (SubscribePipe ((snd pp), o')) :: []
+                     | None -> [])
+                  | None -> []) order)
+                (map (fun x -> Act (n, x)) (init_acts op src others))), w6)
            | OTap t ->
              let (ot, wt) = alloc_obs w4 (TTapLog t) in
              let st1 = st_set_aux st ot in
@@ -4439,25 +4688,29 @@ let step r w =
                set_node wt n { n_op = op; n_src = src; n_others = others;
                  n_st = st1; n_ctl = c }
              in
-             ((flat_map (fun i ->
-                match nth_error ups i with
-                | Some pp ->
-                  (match find_ser i entries with
-                   | Some o' -> (SubscribePipe ((snd pp), o')) :: []
-                   | None -> [])
-                | None -> []) order), w6)
+             ((app
+                (flat_map (fun i ->
+                  match nth_error ups i with
+                  | Some pp ->
+                    (match find_ser i entries with
+                     | Some o' -> (SubscribePipe ((snd pp), o')) :: []
+                     | None -> [])
+                  | None -> []) order)
+                (map (fun x -> Act (n, x)) (init_acts op src others))), w6)
            | _ ->
              let w6 =
                set_node w4 n { n_op = op; n_src = src; n_others = others;
                  n_st = st; n_ctl = c }
              in
-             ((flat_map (fun i ->
-                match nth_error ups i with
-                | Some pp ->
-                  (match find_ser i entries with
-                   | Some o' -> (SubscribePipe ((snd pp), o')) :: []
-                   | None -> [])
-                | None -> []) order), w6))
+             ((app
+                (flat_map (fun i ->
+                  match nth_error ups i with
+                  | Some pp ->
+                    (match find_ser i entries with
+                     | Some o' -> (SubscribePipe ((snd pp), o')) :: []
+                     | None -> [])
+                  | None -> []) order)
+                (map (fun x -> Act (n, x)) (init_acts op src others))), w6))
         | OAmb ->
           let c = w.n_ctls in
           let n = w.n_nodes in
@@ -4484,13 +4737,15 @@ let step r w =
                set_node wt n { n_op = op; n_src = src; n_others = others;
                  n_st = st1; n_ctl = c }
              in
-             ((flat_map (fun i ->
-                match nth_error ups i with
-                | Some pp ->
-                  (match find_ser i entries with
-                   | Some o' -> (SubscribePipe ((snd pp), o')) :: []
-                   | None -> [])
-                | None -> []) order), w6)
+             ((app
+                (flat_map (fun i ->
+                  match nth_error ups i with
+                  | Some pp ->
+                    (match find_ser i entries with
+                     | Some o' -> (SubscribePipe ((snd pp), o')) :: []
+                     | None -> [])
+                  | None -> []) order)
+                (map (fun x -> Act (n, x)) (init_acts op src others))), w6)
            | OTap t ->
              let (ot, wt) = alloc_obs w4 (TTapLog t) in
              let st1 = st_set_aux st ot in
@@ -4498,25 +4753,29 @@ let step r w =
                set_node wt n { n_op = op; n_src = src; n_others = others;
                  n_st = st1; n_ctl = c }
              in
-             ((flat_map (fun i ->
-                match nth_error ups i with
-                | Some pp ->
-                  (match find_ser i entries with
-                   | Some o' -> (SubscribePipe ((snd pp), o')) :: []
-                   | None -> [])
-                | None -> []) order), w6)
+             ((app
+                (flat_map (fun i ->
+                  match nth_error ups i with
+                  | Some pp ->
+                    (match find_ser i entries with
+                     | Some o' -> (SubscribePipe ((snd pp), o')) :: []
+                     | None -> [])
+                  | None -> []) order)
+                (map (fun x -> Act (n, x)) (init_acts op src others))), w6)
            | _ ->
              let w6 =
                set_node w4 n { n_op = op; n_src = src; n_others = others;
                  n_st = st; n_ctl = c }
              in
-             ((flat_map (fun i ->
-                match nth_error ups i with
-                | Some pp ->
-                  (match find_ser i entries with
-                   | Some o' -> (SubscribePipe ((snd pp), o')) :: []
-                   | None -> [])
-                | None -> []) order), w6))
+             ((app
+                (flat_map (fun i ->
+                  match nth_error ups i with
+                  | Some pp ->
+                    (match find_ser i entries with
+                     | Some o' -> (SubscribePipe ((snd pp), o')) :: []
+                     | None -> [])
+                  | None -> []) order)
+                (map (fun x -> Act (n, x)) (init_acts op src others))), w6))
         | OTakeUntil ->
           let c = w.n_ctls in
           let n = w.n_nodes in
@@ -4543,13 +4802,15 @@ let step r w =
                set_node wt n { n_op = op; n_src = src; n_others = others;
                  n_st = st1; n_ctl = c }
              in
-             ((flat_map (fun i ->
-                match nth_error ups i with
-                | Some pp ->
-                  (match find_ser i entries with
-                   | Some o' -> (SubscribePipe ((snd pp), o')) :: []
-                   | None -> [])
-                | None -> []) order), w6)
+             ((app
+                (flat_map (fun i ->
+                  match nth_error ups i with
+                  | Some pp ->
+                    (match find_ser i entries with
+                     | Some o' -> (SubscribePipe ((snd pp), o')) :: []
+                     | None -> [])
+                  | None -> []) order)
+                (map (fun x -> Act (n, x)) (init_acts op src others))), w6)
            | OTap t ->
              let (ot, wt) = alloc_obs w4 (TTapLog t) in
              let st1 = st_set_aux st ot in
@@ -4557,25 +4818,29 @@ let step r w =
                set_node wt n { n_op = op; n_src = src; n_others = others;
                  n_st = st1; n_ctl = c }
              in
-             ((flat_map (fun i ->
-                match nth_error ups i with
-                | Some pp ->
-                  (match find_ser i entries with
-                   | Some o' -> (SubscribePipe ((snd pp), o')) :: []
-                   | None -> [])
-                | None -> []) order), w6)
+             ((app
+                (flat_map (fun i ->
+                  match nth_error ups i with
+                  | Some pp ->
+                    (match find_ser i entries with
+                     | Some o' -> (SubscribePipe ((snd pp), o')) :: []
+                     | None -> [])
+                  | None -> []) order)
+                (map (fun x -> Act (n, x)) (init_acts op src others))), w6)
            | _ ->
              let w6 =
                set_node w4 n { n_op = op; n_src = src; n_others = others;
                  n_st = st; n_ctl = c }
              in
-             ((flat_map (fun i ->
-                match nth_error ups i with
-                | Some pp ->
-                  (match find_ser i entries with
-                   | Some o' -> (SubscribePipe ((snd pp), o')) :: []
-                   | None -> [])
-                | None -> []) order), w6))
+             ((app
+                (flat_map (fun i ->
+                  match nth_error ups i with
+                  | Some pp ->
+                    (match find_ser i entries with
+                     | Some o' -> (SubscribePipe ((snd pp), o')) :: []
+                     | None -> [])
+                  | None -> []) order)
+                (map (fun x -> Act (n, x)) (init_acts op src others))), w6))
         | OSkipUntil ->
           let c = w.n_ctls in
           let n = w.n_nodes in
@@ -4602,13 +4867,15 @@ let step r w =
                set_node wt n { n_op = op; n_src = src; n_others = others;
                  n_st = st1; n_ctl = c }
              in
-             ((flat_map (fun i ->
-                match nth_error ups i with
-                | Some pp ->
-                  (match find_ser i entries with
-                   | Some o' -> (SubscribePipe ((snd pp), o')) :: []
-                   | None -> [])
-                | None -> []) order), w6)
+             ((app
+                (flat_map (fun i ->
+                  match nth_error ups i with
+                  | Some pp ->
+                    (match find_ser i entries with
+                     | Some o' -> (SubscribePipe ((snd pp), o')) :: []
+                     | None -> [])
+                  | None -> []) order)
+                (map (fun x -> Act (n, x)) (init_acts op src others))), w6)
            | OTap t ->
              let (ot, wt) = alloc_obs w4 (TTapLog t) in
              let st1 = st_set_aux st ot in
@@ -4616,25 +4883,29 @@ let step r w =
                set_node wt n { n_op = op; n_src = src; n_others = others;
                  n_st = st1; n_ctl = c }
              in
-             ((flat_map (fun i ->
-                match nth_error ups i with
-                | Some pp ->
-                  (match find_ser i entries with
-                   | Some o' -> (SubscribePipe ((snd pp), o')) :: []
-                   | None -> [])
-                | None -> []) order), w6)
+             ((app
+                (flat_map (fun i ->
+                  match nth_error ups i with
+                  | Some pp ->
+                    (match find_ser i entries with
+                     | Some o' -> (SubscribePipe ((snd pp), o')) :: []
+                     | None -> [])
+                  | None -> []) order)
+                (map (fun x -> Act (n, x)) (init_acts op src others))), w6)
            | _ ->
              let w6 =
                set_node w4 n { n_op = op; n_src = src; n_others = others;
                  n_st = st; n_ctl = c }
              in
-             ((flat_map (fun i ->
-                match nth_error ups i with
-                | Some pp ->
-                  (match find_ser i entries with
-                   | Some o' -> (SubscribePipe ((snd pp), o')) :: []
-                   | None -> [])
-                | None -> []) order), w6))
+             ((app
+                (flat_map (fun i ->
+                  match nth_error ups i with
+                  | Some pp ->
+                    (match find_ser i entries with
+                     | Some o' -> (SubscribePipe ((snd pp), o')) :: []
+                     | None -> [])
+                  | None -> []) order)
+                (map (fun x -> Act (n, x)) (init_acts op src others))), w6))
         | OSample ->
           let c = w.n_ctls in
           let n = w.n_nodes in
@@ -4661,13 +4932,15 @@ let step r w =
                set_node wt n { n_op = op; n_src = src; n_others = others;
                  n_st = st1; n_ctl = c }
              in
-             ((flat_map (fun i ->
-                match nth_error ups i with
-                | Some pp ->
-                  (match find_ser i entries with
-                   | Some o' -> (SubscribePipe ((snd pp), o')) :: []
-                   | None -> [])
-                | None -> []) order), w6)
+             ((app
+                (flat_map (fun i ->
+                  match nth_error ups i with
+                  | Some pp ->
+                    (match find_ser i entries with
+                     | Some o' -> (SubscribePipe ((snd pp), o')) :: []
+                     | None -> [])
+                  | None -> []) order)
+                (map (fun x -> Act (n, x)) (init_acts op src others))), w6)
            | OTap t ->
              let (ot, wt) = alloc_obs w4 (TTapLog t) in
              let st1 = st_set_aux st ot in
@@ -4675,25 +4948,29 @@ let step r w =
                set_node wt n { n_op = op; n_src = src; n_others = others;
                  n_st = st1; n_ctl = c }
              in
-             ((flat_map (fun i ->
-                match nth_error ups i with
-                | Some pp ->
-                  (match find_ser i entries with
-                   | Some o' -> (SubscribePipe ((snd pp), o')) :: []
-                   | None -> [])
-                | None -> []) order), w6)
+             ((app
+                (flat_map (fun i ->
+                  match nth_error ups i with
+                  | Some pp ->
+                    (match find_ser i entries with
+                     | Some o' -> (SubscribePipe ((snd pp), o')) :: []
+                     | None -> [])
+                  | None -> []) order)
+                (map (fun x -> Act (n, x)) (init_acts op src others))), w6)
            | _ ->
              let w6 =
                set_node w4 n { n_op = op; n_src = src; n_others = others;
                  n_st = st; n_ctl = c }
              in
-             ((flat_map (fun i ->
-                match nth_error ups i with
-                | Some pp ->
-                  (match find_ser i entries with
-                   | Some o' -> (SubscribePipe ((snd pp), o')) :: []
-                   | None -> [])
-                | None -> []) order), w6))
+             ((app
+                (flat_map (fun i ->
+                  match nth_error ups i with
+                  | Some pp ->
+                    (match find_ser i entries with
+                     | Some o' -> (SubscribePipe ((snd pp), o')) :: []
+                     | None -> [])
+                  | None -> []) order)
+                (map (fun x -> Act (n, x)) (init_acts op src others))), w6))
         | OSwitchOnNext ->
           let c = w.n_ctls in
           let n = w.n_nodes in
@@ -4720,13 +4997,15 @@ let step r w =
                set_node wt n { n_op = op; n_src = src; n_others = others;
                  n_st = st1; n_ctl = c }
              in
-             ((flat_map (fun i ->
-                match nth_error ups i with
-                | Some pp ->
-                  (match find_ser i entries with
-                   | Some o' -> (SubscribePipe ((snd pp), o')) :: []
-                   | None -> [])
-                | None -> []) order), w6)
+             ((app
+                (flat_map (fun i ->
+                  match nth_error ups i with
+                  | Some pp ->
+                    (match find_ser i entries with
+                     | Some o' -> (SubscribePipe ((snd pp), o')) :: []
+                     | None -> [])
+                  | None -> []) order)
+                (map (fun x -> Act (n, x)) (init_acts op src others))), w6)
            | OTap t ->
              let (ot, wt) = alloc_obs w4 (TTapLog t) in
              let st1 = st_set_aux st ot in
@@ -4734,25 +5013,29 @@ let step r w =
                set_node wt n { n_op = op; n_src = src; n_others = others;
                  n_st = st1; n_ctl = c }
              in
-             ((flat_map (fun i ->
-                match nth_error ups i with
-                | Some pp ->
-                  (match find_ser i entries with
-                   | Some o' -> (SubscribePipe ((snd pp), o')) :: []
-                   | None -> [])
-                | None -> []) order), w6)
+             ((app
+                (flat_map (fun i ->
+                  match nth_error ups i with
+                  | Some pp ->
+                    (match find_ser i entries with
+                     | Some o' -> (SubscribePipe ((snd pp), o')) :: []
+                     | None -> [])
+                  | None -> []) order)
+                (map (fun x -> Act (n, x)) (init_acts op src others))), w6)
            | _ ->
              let w6 =
                set_node w4 n { n_op = op; n_src = src; n_others = others;
                  n_st = st; n_ctl = c }
              in
-             ((flat_map (fun i ->
-                match nth_error ups i with
-                | Some pp ->
-                  (match find_ser i entries with
-                   | Some o' -> (SubscribePipe ((snd pp), o')) :: []
-                   | None -> [])
-                | None -> []) order), w6))
+             ((app
+                (flat_map (fun i ->
+                  match nth_error ups i with
+                  | Some pp ->
+                    (match find_ser i entries with
+                     | Some o' -> (SubscribePipe ((snd pp), o')) :: []
+                     | None -> [])
+                  | None -> []) order)
+                (map (fun x -> Act (n, x)) (init_acts op src others))), w6))
         | OSequenceEqual ->
           let c = w.n_ctls in
           let n = w.n_nodes in
@@ -4779,13 +5062,15 @@ let step r w =
                set_node wt n { n_op = op; n_src = src; n_others = others;
                  n_st = st1; n_ctl = c }
              in
-             ((flat_map (fun i ->
-                match nth_error ups i with
-                | Some pp ->
-                  (match find_ser i entries with
-                   | Some o' -> (SubscribePipe ((snd pp), o')) :: []
-                   | None -> [])
-                | None -> []) order), w6)
+             ((app
+                (flat_map (fun i ->
+                  match nth_error ups i with
+                  | Some pp ->
+                    (match find_ser i entries with
+                     | Some o' -> (SubscribePipe ((snd pp), o')) :: []
+                     | None -> [])
+                  | None -> []) order)
+                (map (fun x -> Act (n, x)) (init_acts op src others))), w6)
            | OTap t ->
              let (ot, wt) = alloc_obs w4 (TTapLog t) in
              let st1 = st_set_aux st ot in
@@ -4793,25 +5078,29 @@ let step r w =
                set_node wt n { n_op = op; n_src = src; n_others = others;
                  n_st = st1; n_ctl = c }
              in
-             ((flat_map (fun i ->
-                match nth_error ups i with
-                | Some pp ->
-                  (match find_ser i entries with
-                   | Some o' -> (SubscribePipe ((snd pp), o')) :: []
-                   | None -> [])
-                | None -> []) order), w6)
+             ((app
+                (flat_map (fun i ->
+                  match nth_error ups i with
+                  | Some pp ->
+                    (match find_ser i entries with
+                     | Some o' -> (SubscribePipe ((snd pp), o')) :: []
+                     | None -> [])
+                  | None -> []) order)
+                (map (fun x -> Act (n, x)) (init_acts op src others))), w6)
            | _ ->
              let w6 =
                set_node w4 n { n_op = op; n_src = src; n_others = others;
                  n_st = st; n_ctl = c }
              in
-             ((flat_map (fun i ->
-                match nth_error ups i with
-                | Some pp ->
-                  (match find_ser i entries with
-                   | Some o' -> (SubscribePipe ((snd pp), o')) :: []
-                   | None -> [])
-                | None -> []) order), w6))
+             ((app
+                (flat_map (fun i ->
+                  match nth_error ups i with
+                  | Some pp ->
+                    (match find_ser i entries with
+                     | Some o' -> (SubscribePipe ((snd pp), o')) :: []
+                     | None -> [])
+                  | None -> []) order)
+                (map (fun x -> Act (n, x)) (init_acts op src others))), w6))
         | ORetry _ ->
           let c = w.n_ctls in
           let n = w.n_nodes in
@@ -4838,13 +5127,15 @@ let step r w =
                set_node wt n { n_op = op; n_src = src; n_others = others;
                  n_st = st1; n_ctl = c }
              in
-             ((flat_map (fun i ->
-                match nth_error ups i with
-                | Some pp ->
-                  (match find_ser i entries with
-                   | Some o' -> (SubscribePipe ((snd pp), o')) :: []
-                   | None -> [])
-                | None -> []) order), w6)
+             ((app
+                (flat_map (fun i ->
+                  match nth_error ups i with
+                  | Some pp ->
+                    (match find_ser i entries with
+                     | Some o' -> (SubscribePipe ((snd pp), o')) :: []
+                     | None -> [])
+                  | None -> []) order)
+                (map (fun x -> Act (n, x)) (init_acts op src others))), w6)
            | OTap t ->
              let (ot, wt) = alloc_obs w4 (TTapLog t) in
              let st1 = st_set_aux st ot in
@@ -4852,25 +5143,29 @@ let step r w =
                set_node wt n { n_op = op; n_src = src; n_others = others;
                  n_st = st1; n_ctl = c }
              in
-             ((flat_map (fun i ->
-                match nth_error ups i with
-                | Some pp ->
-                  (match find_ser i entries with
-                   | Some o' -> (SubscribePipe ((snd pp), o')) :: []
-                   | None -> [])
-                | None -> []) order), w6)
+             ((app
+                (flat_map (fun i ->
+                  match nth_error ups i with
+                  | Some pp ->
+                    (match find_ser i entries with
+                     | Some o' -> (SubscribePipe ((snd pp), o')) :: []
+                     | None -> [])
+                  | None -> []) order)
+                (map (fun x -> Act (n, x)) (init_acts op src others))), w6)
            | _ ->
              let w6 =
                set_node w4 n { n_op = op; n_src = src; n_others = others;
                  n_st = st; n_ctl = c }
              in
-             ((flat_map (fun i ->
-                match nth_error ups i with
-                | Some pp ->
-                  (match find_ser i entries with
-                   | Some o' -> (SubscribePipe ((snd pp), o')) :: []
-                   | None -> [])
-                | None -> []) order), w6))
+             ((app
+                (flat_map (fun i ->
+                  match nth_error ups i with
+                  | Some pp ->
+                    (match find_ser i entries with
+                     | Some o' -> (SubscribePipe ((snd pp), o')) :: []
+                     | None -> [])
+                  | None -> []) order)
+                (map (fun x -> Act (n, x)) (init_acts op src others))), w6))
         | ORetryWhen _ ->
           let c = w.n_ctls in
           let n = w.n_nodes in
@@ -4897,13 +5192,15 @@ let step r w =
                set_node wt n { n_op = op; n_src = src; n_others = others;
                  n_st = st1; n_ctl = c }
              in
-             ((flat_map (fun i ->
-                match nth_error ups i with
-                | Some pp ->
-                  (match find_ser i entries with
-                   | Some o' -> (SubscribePipe ((snd pp), o')) :: []
-                   | None -> [])
-                | None -> []) order), w6)
+             ((app
+                (flat_map (fun i ->
+                  match nth_error ups i with
+                  | Some pp ->
+                    (match find_ser i entries with
+                     | Some o' -> (SubscribePipe ((snd pp), o')) :: []
+                     | None -> [])
+                  | None -> []) order)
+                (map (fun x -> Act (n, x)) (init_acts op src others))), w6)
            | OTap t ->
              let (ot, wt) = alloc_obs w4 (TTapLog t) in
              let st1 = st_set_aux st ot in
@@ -4911,25 +5208,29 @@ let step r w =
                set_node wt n { n_op = op; n_src = src; n_others = others;
                  n_st = st1; n_ctl = c }
              in
-             ((flat_map (fun i ->
-                match nth_error ups i with
-                | Some pp ->
-                  (match find_ser i entries with
-                   | Some o' -> (SubscribePipe ((snd pp), o')) :: []
-                   | None -> [])
-                | None -> []) order), w6)
+             ((app
+                (flat_map (fun i ->
+                  match nth_error ups i with
+                  | Some pp ->
+                    (match find_ser i entries with
+                     | Some o' -> (SubscribePipe ((snd pp), o')) :: []
+                     | None -> [])
+                  | None -> []) order)
+                (map (fun x -> Act (n, x)) (init_acts op src others))), w6)
            | _ ->
              let w6 =
                set_node w4 n { n_op = op; n_src = src; n_others = others;
                  n_st = st; n_ctl = c }
              in
-             ((flat_map (fun i ->
-                match nth_error ups i with
-                | Some pp ->
-                  (match find_ser i entries with
-                   | Some o' -> (SubscribePipe ((snd pp), o')) :: []
-                   | None -> [])
-                | None -> []) order), w6))
+             ((app
+                (flat_map (fun i ->
+                  match nth_error ups i with
+                  | Some pp ->
+                    (match find_ser i entries with
+                     | Some o' -> (SubscribePipe ((snd pp), o')) :: []
+                     | None -> [])
+                  | None -> []) order)
+                (map (fun x -> Act (n, x)) (init_acts op src others))), w6))
         | OResume ->
           let c = w.n_ctls in
           let n = w.n_nodes in
@@ -4956,13 +5257,15 @@ let step r w =
                set_node wt n { n_op = op; n_src = src; n_others = others;
                  n_st = st1; n_ctl = c }
              in
-             ((flat_map (fun i ->
-                match nth_error ups i with
-                | Some pp ->
-                  (match find_ser i entries with
-                   | Some o' -> (SubscribePipe ((snd pp), o')) :: []
-                   | None -> [])
-                | None -> []) order), w6)
+             ((app
+                (flat_map (fun i ->
+                  match nth_error ups i with
+                  | Some pp ->
+                    (match find_ser i entries with
+                     | Some o' -> (SubscribePipe ((snd pp), o')) :: []
+                     | None -> [])
+                  | None -> []) order)
+                (map (fun x -> Act (n, x)) (init_acts op src others))), w6)
            | OTap t ->
              let (ot, wt) = alloc_obs w4 (TTapLog t) in
              let st1 = st_set_aux st ot in
@@ -4970,25 +5273,29 @@ let step r w =
                set_node wt n { n_op = op; n_src = src; n_others = others;
                  n_st = st1; n_ctl = c }
              in
-             ((flat_map (fun i ->
-                match nth_error ups i with
-                | Some pp ->
-                  (match find_ser i entries with
-                   | Some o' -> (SubscribePipe ((snd pp), o')) :: []
-                   | None -> [])
-                | None -> []) order), w6)
+             ((app
+                (flat_map (fun i ->
+                  match nth_error ups i with
+                  | Some pp ->
+                    (match find_ser i entries with
+                     | Some o' -> (SubscribePipe ((snd pp), o')) :: []
+                     | None -> [])
+                  | None -> []) order)
+                (map (fun x -> Act (n, x)) (init_acts op src others))), w6)
            | _ ->
              let w6 =
                set_node w4 n { n_op = op; n_src = src; n_others = others;
                  n_st = st; n_ctl = c }
              in
-             ((flat_map (fun i ->
-                match nth_error ups i with
-                | Some pp ->
-                  (match find_ser i entries with
-                   | Some o' -> (SubscribePipe ((snd pp), o')) :: []
-                   | None -> [])
-                | None -> []) order), w6))
+             ((app
+                (flat_map (fun i ->
+                  match nth_error ups i with
+                  | Some pp ->
+                    (match find_ser i entries with
+                     | Some o' -> (SubscribePipe ((snd pp), o')) :: []
+                     | None -> [])
+                  | None -> []) order)
+                (map (fun x -> Act (n, x)) (init_acts op src others))), w6))
         | OFwd ->
           let c = w.n_ctls in
           let n = w.n_nodes in
@@ -5015,13 +5322,15 @@ let step r w =
                set_node wt n { n_op = op; n_src = src; n_others = others;
                  n_st = st1; n_ctl = c }
              in
-             ((flat_map (fun i ->
-                match nth_error ups i with
-                | Some pp ->
-                  (match find_ser i entries with
-                   | Some o' -> (SubscribePipe ((snd pp), o')) :: []
-                   | None -> [])
-                | None -> []) order), w6)
+             ((app
+                (flat_map (fun i ->
+                  match nth_error ups i with
+                  | Some pp ->
+                    (match find_ser i entries with
+                     | Some o' -> (SubscribePipe ((snd pp), o')) :: []
+                     | None -> [])
+                  | None -> []) order)
+                (map (fun x -> Act (n, x)) (init_acts op src others))), w6)
            | OTap t ->
              let (ot, wt) = alloc_obs w4 (TTapLog t) in
              let st1 = st_set_aux st ot in
@@ -5029,25 +5338,29 @@ let step r w =
                set_node wt n { n_op = op; n_src = src; n_others = others;
                  n_st = st1; n_ctl = c }
              in
-             ((flat_map (fun i ->
-                match nth_error ups i with
-                | Some pp ->
-                  (match find_ser i entries with
-                   | Some o' -> (SubscribePipe ((snd pp), o')) :: []
-                   | None -> [])
-                | None -> []) order), w6)
+             ((app
+                (flat_map (fun i ->
+                  match nth_error ups i with
+                  | Some pp ->
+                    (match find_ser i entries with
+                     | Some o' -> (SubscribePipe ((snd pp), o')) :: []
+                     | None -> [])
+                  | None -> []) order)
+                (map (fun x -> Act (n, x)) (init_acts op src others))), w6)
            | _ ->
              let w6 =
                set_node w4 n { n_op = op; n_src = src; n_others = others;
                  n_st = st; n_ctl = c }
              in
-             ((flat_map (fun i ->
-                match nth_error ups i with
-                | Some pp ->
-                  (match find_ser i entries with
-                   | Some o' -> (SubscribePipe ((snd pp), o')) :: []
-                   | None -> [])
-                | None -> []) order), w6))))
+             ((app
+                (flat_map (fun i ->
+                  match nth_error ups i with
+                  | Some pp ->
+                    (match find_ser i entries with
+                     | Some o' -> (SubscribePipe ((snd pp), o')) :: []
+                     | None -> [])
+                  | None -> []) order)
+                (map (fun x -> Act (n, x)) (init_acts op src others))), w6))))
   | SubjCall (h, e) ->
     let sj = w.subjs h in
     let sj' =
@@ -5253,3 +5566,46 @@ let init_world sc =
 
 let run_scenario fuel sc =
   run fuel (map (fun x -> Drv x) sc.sc_script) (init_world sc)
+
+type observation = { ob_out : nat; ob_log : ((nat * nat) * ev) list;
+                     ob_tap : (nat * ev) list;
+                     ob_probes : (((nat * nat) * nat) * bool) list;
+                     ob_snaps : ((nat * bool list) * nat list) list }
+
+(** val obs_of_run : (req list * world) -> observation **)
+
+let obs_of_run = function
+| (stk, w) ->
+  { ob_out =
+    (match w.out with
+     | Running -> (match stk with
+                   | [] -> O
+                   | _ :: _ -> S O)
+     | SelfDeadlock _ -> S O); ob_log = w.log; ob_tap = w.taplog; ob_probes =
+    w.probes; ob_snaps = w.snaps }
+
+(** val ulog : nat -> ((nat * nat) * ev) list -> ev list **)
+
+let ulog u l =
+  map snd (filter (fun p -> Nat.eqb (fst (fst p)) u) l)
+
+(** val users : ((nat * nat) * ev) list -> nat list **)
+
+let users l =
+  nodup Nat.eq_dec (map (fun p -> fst (fst p)) l)
+
+(** val contract_ok : ev list -> bool **)
+
+let rec contract_ok = function
+| [] -> true
+| e :: r ->
+  if is_term e
+  then (match r with
+        | [] -> true
+        | _ :: _ -> false)
+  else contract_ok r
+
+(** val c01_oracle : observation -> bool **)
+
+let c01_oracle o =
+  forallb (fun u -> contract_ok (ulog u o.ob_log)) (users o.ob_log)
